@@ -65,14 +65,52 @@ impl ::core::convert::From<Tsmall> for u8 {
     }
 }
 
+#[asn(choice)]
+
+#[derive(Debug, Clone, PartialEq, Hash)]
+pub enum Tchoice {
+    #[asn(integer(0..7))] I(u8),
+    #[asn(boolean)] B(bool),
+}
+
+impl Tchoice {
+    pub fn variants() -> [Self; 2] {
+        [
+        Tchoice::I(Default::default()),
+        Tchoice::B(Default::default()),
+        ]
+    }
+
+    pub fn value_index(&self) -> usize {
+        match self {
+            Tchoice::I(_) => 0,
+            Tchoice::B(_) => 1,
+        }
+    }
+
+    pub const fn i_min() -> u8 {
+        0
+    }
+
+    pub const fn i_max() -> u8 {
+        7
+    }
+}
+
+impl Default for Tchoice {
+    fn default() -> Tchoice {
+        Tchoice::I(Default::default())
+    }
+}
+
 #[asn(sequence)]
 
 #[derive(Default, Debug, Clone, PartialEq, Hash)]
 pub struct Tr4mmmmn {
-    #[asn(complex(Tplain, tag(UNIVERSAL(16))))] pub f0: Tplain,
-    #[asn(complex(Tsmall, tag(UNIVERSAL(2))))] pub f1: Tsmall,
-    #[asn(complex(Tplain, tag(UNIVERSAL(16))))] pub f2: Tplain,
-    #[asn(complex(Tsmall, tag(UNIVERSAL(2))))] pub f3: Tsmall,
+    #[asn(complex(Tchoice, tag(UNIVERSAL(1))))] pub f0: Tchoice,
+    #[asn(complex(Tplain, tag(UNIVERSAL(16))))] pub f1: Tplain,
+    #[asn(complex(Tsmall, tag(UNIVERSAL(2))))] pub f2: Tsmall,
+    #[asn(complex(Tchoice, tag(UNIVERSAL(1))))] pub f3: Tchoice,
 }
 
 impl Tr4mmmmn {
@@ -82,10 +120,10 @@ impl Tr4mmmmn {
 
 #[derive(Default, Debug, Clone, PartialEq, Hash)]
 pub struct Tr4mmmme0 {
-    #[asn(complex(Tplain, tag(UNIVERSAL(16))))] pub f0: Tplain,
-    #[asn(optional(complex(Tsmall, tag(UNIVERSAL(2)))))] pub f1: Option<Tsmall>,
-    #[asn(optional(complex(Tplain, tag(UNIVERSAL(16)))))] pub f2: Option<Tplain>,
-    #[asn(optional(complex(Tsmall, tag(UNIVERSAL(2)))))] pub f3: Option<Tsmall>,
+    #[asn(complex(Tchoice, tag(UNIVERSAL(1))))] pub f0: Tchoice,
+    #[asn(optional(complex(Tplain, tag(UNIVERSAL(16)))))] pub f1: Option<Tplain>,
+    #[asn(optional(complex(Tsmall, tag(UNIVERSAL(2)))))] pub f2: Option<Tsmall>,
+    #[asn(optional(complex(Tchoice, tag(UNIVERSAL(1)))))] pub f3: Option<Tchoice>,
 }
 
 impl Tr4mmmme0 {
@@ -95,10 +133,10 @@ impl Tr4mmmme0 {
 
 #[derive(Default, Debug, Clone, PartialEq, Hash)]
 pub struct Tr4mmmme1 {
-    #[asn(complex(Tplain, tag(UNIVERSAL(16))))] pub f0: Tplain,
-    #[asn(optional(complex(Tsmall, tag(UNIVERSAL(2)))))] pub f1: Option<Tsmall>,
-    #[asn(optional(complex(Tplain, tag(UNIVERSAL(16)))))] pub f2: Option<Tplain>,
-    #[asn(optional(complex(Tsmall, tag(UNIVERSAL(2)))))] pub f3: Option<Tsmall>,
+    #[asn(complex(Tchoice, tag(UNIVERSAL(1))))] pub f0: Tchoice,
+    #[asn(optional(complex(Tplain, tag(UNIVERSAL(16)))))] pub f1: Option<Tplain>,
+    #[asn(optional(complex(Tsmall, tag(UNIVERSAL(2)))))] pub f2: Option<Tsmall>,
+    #[asn(optional(complex(Tchoice, tag(UNIVERSAL(1)))))] pub f3: Option<Tchoice>,
 }
 
 impl Tr4mmmme1 {
@@ -108,10 +146,10 @@ impl Tr4mmmme1 {
 
 #[derive(Default, Debug, Clone, PartialEq, Hash)]
 pub struct Tr4mmmme2 {
-    #[asn(complex(Tplain, tag(UNIVERSAL(16))))] pub f0: Tplain,
-    #[asn(complex(Tsmall, tag(UNIVERSAL(2))))] pub f1: Tsmall,
-    #[asn(optional(complex(Tplain, tag(UNIVERSAL(16)))))] pub f2: Option<Tplain>,
-    #[asn(optional(complex(Tsmall, tag(UNIVERSAL(2)))))] pub f3: Option<Tsmall>,
+    #[asn(complex(Tchoice, tag(UNIVERSAL(1))))] pub f0: Tchoice,
+    #[asn(complex(Tplain, tag(UNIVERSAL(16))))] pub f1: Tplain,
+    #[asn(optional(complex(Tsmall, tag(UNIVERSAL(2)))))] pub f2: Option<Tsmall>,
+    #[asn(optional(complex(Tchoice, tag(UNIVERSAL(1)))))] pub f3: Option<Tchoice>,
 }
 
 impl Tr4mmmme2 {
@@ -121,10 +159,10 @@ impl Tr4mmmme2 {
 
 #[derive(Default, Debug, Clone, PartialEq, Hash)]
 pub struct Tr4mmmme3 {
-    #[asn(complex(Tplain, tag(UNIVERSAL(16))))] pub f0: Tplain,
-    #[asn(complex(Tsmall, tag(UNIVERSAL(2))))] pub f1: Tsmall,
-    #[asn(complex(Tplain, tag(UNIVERSAL(16))))] pub f2: Tplain,
-    #[asn(optional(complex(Tsmall, tag(UNIVERSAL(2)))))] pub f3: Option<Tsmall>,
+    #[asn(complex(Tchoice, tag(UNIVERSAL(1))))] pub f0: Tchoice,
+    #[asn(complex(Tplain, tag(UNIVERSAL(16))))] pub f1: Tplain,
+    #[asn(complex(Tsmall, tag(UNIVERSAL(2))))] pub f2: Tsmall,
+    #[asn(optional(complex(Tchoice, tag(UNIVERSAL(1)))))] pub f3: Option<Tchoice>,
 }
 
 impl Tr4mmmme3 {
@@ -134,10 +172,10 @@ impl Tr4mmmme3 {
 
 #[derive(Default, Debug, Clone, PartialEq, Hash)]
 pub struct Tr4mmmme4 {
-    #[asn(complex(Tplain, tag(UNIVERSAL(16))))] pub f0: Tplain,
-    #[asn(complex(Tsmall, tag(UNIVERSAL(2))))] pub f1: Tsmall,
-    #[asn(complex(Tplain, tag(UNIVERSAL(16))))] pub f2: Tplain,
-    #[asn(complex(Tsmall, tag(UNIVERSAL(2))))] pub f3: Tsmall,
+    #[asn(complex(Tchoice, tag(UNIVERSAL(1))))] pub f0: Tchoice,
+    #[asn(complex(Tplain, tag(UNIVERSAL(16))))] pub f1: Tplain,
+    #[asn(complex(Tsmall, tag(UNIVERSAL(2))))] pub f2: Tsmall,
+    #[asn(complex(Tchoice, tag(UNIVERSAL(1))))] pub f3: Tchoice,
 }
 
 impl Tr4mmmme4 {
@@ -147,10 +185,10 @@ impl Tr4mmmme4 {
 
 #[derive(Default, Debug, Clone, PartialEq, Hash)]
 pub struct Tr4ommmn {
-    #[asn(optional(complex(Tplain, tag(UNIVERSAL(16)))))] pub f0: Option<Tplain>,
-    #[asn(complex(Tsmall, tag(UNIVERSAL(2))))] pub f1: Tsmall,
-    #[asn(complex(Tplain, tag(UNIVERSAL(16))))] pub f2: Tplain,
-    #[asn(complex(Tsmall, tag(UNIVERSAL(2))))] pub f3: Tsmall,
+    #[asn(optional(complex(Tchoice, tag(UNIVERSAL(1)))))] pub f0: Option<Tchoice>,
+    #[asn(complex(Tplain, tag(UNIVERSAL(16))))] pub f1: Tplain,
+    #[asn(complex(Tsmall, tag(UNIVERSAL(2))))] pub f2: Tsmall,
+    #[asn(complex(Tchoice, tag(UNIVERSAL(1))))] pub f3: Tchoice,
 }
 
 impl Tr4ommmn {
@@ -160,10 +198,10 @@ impl Tr4ommmn {
 
 #[derive(Default, Debug, Clone, PartialEq, Hash)]
 pub struct Tr4ommme0 {
-    #[asn(optional(complex(Tplain, tag(UNIVERSAL(16)))))] pub f0: Option<Tplain>,
-    #[asn(optional(complex(Tsmall, tag(UNIVERSAL(2)))))] pub f1: Option<Tsmall>,
-    #[asn(optional(complex(Tplain, tag(UNIVERSAL(16)))))] pub f2: Option<Tplain>,
-    #[asn(optional(complex(Tsmall, tag(UNIVERSAL(2)))))] pub f3: Option<Tsmall>,
+    #[asn(optional(complex(Tchoice, tag(UNIVERSAL(1)))))] pub f0: Option<Tchoice>,
+    #[asn(optional(complex(Tplain, tag(UNIVERSAL(16)))))] pub f1: Option<Tplain>,
+    #[asn(optional(complex(Tsmall, tag(UNIVERSAL(2)))))] pub f2: Option<Tsmall>,
+    #[asn(optional(complex(Tchoice, tag(UNIVERSAL(1)))))] pub f3: Option<Tchoice>,
 }
 
 impl Tr4ommme0 {
@@ -173,10 +211,10 @@ impl Tr4ommme0 {
 
 #[derive(Default, Debug, Clone, PartialEq, Hash)]
 pub struct Tr4ommme1 {
-    #[asn(optional(complex(Tplain, tag(UNIVERSAL(16)))))] pub f0: Option<Tplain>,
-    #[asn(optional(complex(Tsmall, tag(UNIVERSAL(2)))))] pub f1: Option<Tsmall>,
-    #[asn(optional(complex(Tplain, tag(UNIVERSAL(16)))))] pub f2: Option<Tplain>,
-    #[asn(optional(complex(Tsmall, tag(UNIVERSAL(2)))))] pub f3: Option<Tsmall>,
+    #[asn(optional(complex(Tchoice, tag(UNIVERSAL(1)))))] pub f0: Option<Tchoice>,
+    #[asn(optional(complex(Tplain, tag(UNIVERSAL(16)))))] pub f1: Option<Tplain>,
+    #[asn(optional(complex(Tsmall, tag(UNIVERSAL(2)))))] pub f2: Option<Tsmall>,
+    #[asn(optional(complex(Tchoice, tag(UNIVERSAL(1)))))] pub f3: Option<Tchoice>,
 }
 
 impl Tr4ommme1 {
@@ -186,10 +224,10 @@ impl Tr4ommme1 {
 
 #[derive(Default, Debug, Clone, PartialEq, Hash)]
 pub struct Tr4ommme2 {
-    #[asn(optional(complex(Tplain, tag(UNIVERSAL(16)))))] pub f0: Option<Tplain>,
-    #[asn(complex(Tsmall, tag(UNIVERSAL(2))))] pub f1: Tsmall,
-    #[asn(optional(complex(Tplain, tag(UNIVERSAL(16)))))] pub f2: Option<Tplain>,
-    #[asn(optional(complex(Tsmall, tag(UNIVERSAL(2)))))] pub f3: Option<Tsmall>,
+    #[asn(optional(complex(Tchoice, tag(UNIVERSAL(1)))))] pub f0: Option<Tchoice>,
+    #[asn(complex(Tplain, tag(UNIVERSAL(16))))] pub f1: Tplain,
+    #[asn(optional(complex(Tsmall, tag(UNIVERSAL(2)))))] pub f2: Option<Tsmall>,
+    #[asn(optional(complex(Tchoice, tag(UNIVERSAL(1)))))] pub f3: Option<Tchoice>,
 }
 
 impl Tr4ommme2 {
@@ -199,10 +237,10 @@ impl Tr4ommme2 {
 
 #[derive(Default, Debug, Clone, PartialEq, Hash)]
 pub struct Tr4ommme3 {
-    #[asn(optional(complex(Tplain, tag(UNIVERSAL(16)))))] pub f0: Option<Tplain>,
-    #[asn(complex(Tsmall, tag(UNIVERSAL(2))))] pub f1: Tsmall,
-    #[asn(complex(Tplain, tag(UNIVERSAL(16))))] pub f2: Tplain,
-    #[asn(optional(complex(Tsmall, tag(UNIVERSAL(2)))))] pub f3: Option<Tsmall>,
+    #[asn(optional(complex(Tchoice, tag(UNIVERSAL(1)))))] pub f0: Option<Tchoice>,
+    #[asn(complex(Tplain, tag(UNIVERSAL(16))))] pub f1: Tplain,
+    #[asn(complex(Tsmall, tag(UNIVERSAL(2))))] pub f2: Tsmall,
+    #[asn(optional(complex(Tchoice, tag(UNIVERSAL(1)))))] pub f3: Option<Tchoice>,
 }
 
 impl Tr4ommme3 {
@@ -212,10 +250,10 @@ impl Tr4ommme3 {
 
 #[derive(Default, Debug, Clone, PartialEq, Hash)]
 pub struct Tr4ommme4 {
-    #[asn(optional(complex(Tplain, tag(UNIVERSAL(16)))))] pub f0: Option<Tplain>,
-    #[asn(complex(Tsmall, tag(UNIVERSAL(2))))] pub f1: Tsmall,
-    #[asn(complex(Tplain, tag(UNIVERSAL(16))))] pub f2: Tplain,
-    #[asn(complex(Tsmall, tag(UNIVERSAL(2))))] pub f3: Tsmall,
+    #[asn(optional(complex(Tchoice, tag(UNIVERSAL(1)))))] pub f0: Option<Tchoice>,
+    #[asn(complex(Tplain, tag(UNIVERSAL(16))))] pub f1: Tplain,
+    #[asn(complex(Tsmall, tag(UNIVERSAL(2))))] pub f2: Tsmall,
+    #[asn(complex(Tchoice, tag(UNIVERSAL(1))))] pub f3: Tchoice,
 }
 
 impl Tr4ommme4 {
@@ -225,10 +263,10 @@ impl Tr4ommme4 {
 
 #[derive(Default, Debug, Clone, PartialEq, Hash)]
 pub struct Tr4mommn {
-    #[asn(complex(Tplain, tag(UNIVERSAL(16))))] pub f0: Tplain,
-    #[asn(optional(complex(Tsmall, tag(UNIVERSAL(2)))))] pub f1: Option<Tsmall>,
-    #[asn(complex(Tplain, tag(UNIVERSAL(16))))] pub f2: Tplain,
-    #[asn(complex(Tsmall, tag(UNIVERSAL(2))))] pub f3: Tsmall,
+    #[asn(complex(Tchoice, tag(UNIVERSAL(1))))] pub f0: Tchoice,
+    #[asn(optional(complex(Tplain, tag(UNIVERSAL(16)))))] pub f1: Option<Tplain>,
+    #[asn(complex(Tsmall, tag(UNIVERSAL(2))))] pub f2: Tsmall,
+    #[asn(complex(Tchoice, tag(UNIVERSAL(1))))] pub f3: Tchoice,
 }
 
 impl Tr4mommn {
@@ -238,10 +276,10 @@ impl Tr4mommn {
 
 #[derive(Default, Debug, Clone, PartialEq, Hash)]
 pub struct Tr4momme0 {
-    #[asn(complex(Tplain, tag(UNIVERSAL(16))))] pub f0: Tplain,
-    #[asn(optional(complex(Tsmall, tag(UNIVERSAL(2)))))] pub f1: Option<Tsmall>,
-    #[asn(optional(complex(Tplain, tag(UNIVERSAL(16)))))] pub f2: Option<Tplain>,
-    #[asn(optional(complex(Tsmall, tag(UNIVERSAL(2)))))] pub f3: Option<Tsmall>,
+    #[asn(complex(Tchoice, tag(UNIVERSAL(1))))] pub f0: Tchoice,
+    #[asn(optional(complex(Tplain, tag(UNIVERSAL(16)))))] pub f1: Option<Tplain>,
+    #[asn(optional(complex(Tsmall, tag(UNIVERSAL(2)))))] pub f2: Option<Tsmall>,
+    #[asn(optional(complex(Tchoice, tag(UNIVERSAL(1)))))] pub f3: Option<Tchoice>,
 }
 
 impl Tr4momme0 {
@@ -251,10 +289,10 @@ impl Tr4momme0 {
 
 #[derive(Default, Debug, Clone, PartialEq, Hash)]
 pub struct Tr4momme1 {
-    #[asn(complex(Tplain, tag(UNIVERSAL(16))))] pub f0: Tplain,
-    #[asn(optional(complex(Tsmall, tag(UNIVERSAL(2)))))] pub f1: Option<Tsmall>,
-    #[asn(optional(complex(Tplain, tag(UNIVERSAL(16)))))] pub f2: Option<Tplain>,
-    #[asn(optional(complex(Tsmall, tag(UNIVERSAL(2)))))] pub f3: Option<Tsmall>,
+    #[asn(complex(Tchoice, tag(UNIVERSAL(1))))] pub f0: Tchoice,
+    #[asn(optional(complex(Tplain, tag(UNIVERSAL(16)))))] pub f1: Option<Tplain>,
+    #[asn(optional(complex(Tsmall, tag(UNIVERSAL(2)))))] pub f2: Option<Tsmall>,
+    #[asn(optional(complex(Tchoice, tag(UNIVERSAL(1)))))] pub f3: Option<Tchoice>,
 }
 
 impl Tr4momme1 {
@@ -264,10 +302,10 @@ impl Tr4momme1 {
 
 #[derive(Default, Debug, Clone, PartialEq, Hash)]
 pub struct Tr4momme2 {
-    #[asn(complex(Tplain, tag(UNIVERSAL(16))))] pub f0: Tplain,
-    #[asn(optional(complex(Tsmall, tag(UNIVERSAL(2)))))] pub f1: Option<Tsmall>,
-    #[asn(optional(complex(Tplain, tag(UNIVERSAL(16)))))] pub f2: Option<Tplain>,
-    #[asn(optional(complex(Tsmall, tag(UNIVERSAL(2)))))] pub f3: Option<Tsmall>,
+    #[asn(complex(Tchoice, tag(UNIVERSAL(1))))] pub f0: Tchoice,
+    #[asn(optional(complex(Tplain, tag(UNIVERSAL(16)))))] pub f1: Option<Tplain>,
+    #[asn(optional(complex(Tsmall, tag(UNIVERSAL(2)))))] pub f2: Option<Tsmall>,
+    #[asn(optional(complex(Tchoice, tag(UNIVERSAL(1)))))] pub f3: Option<Tchoice>,
 }
 
 impl Tr4momme2 {
@@ -277,10 +315,10 @@ impl Tr4momme2 {
 
 #[derive(Default, Debug, Clone, PartialEq, Hash)]
 pub struct Tr4momme3 {
-    #[asn(complex(Tplain, tag(UNIVERSAL(16))))] pub f0: Tplain,
-    #[asn(optional(complex(Tsmall, tag(UNIVERSAL(2)))))] pub f1: Option<Tsmall>,
-    #[asn(complex(Tplain, tag(UNIVERSAL(16))))] pub f2: Tplain,
-    #[asn(optional(complex(Tsmall, tag(UNIVERSAL(2)))))] pub f3: Option<Tsmall>,
+    #[asn(complex(Tchoice, tag(UNIVERSAL(1))))] pub f0: Tchoice,
+    #[asn(optional(complex(Tplain, tag(UNIVERSAL(16)))))] pub f1: Option<Tplain>,
+    #[asn(complex(Tsmall, tag(UNIVERSAL(2))))] pub f2: Tsmall,
+    #[asn(optional(complex(Tchoice, tag(UNIVERSAL(1)))))] pub f3: Option<Tchoice>,
 }
 
 impl Tr4momme3 {
@@ -290,10 +328,10 @@ impl Tr4momme3 {
 
 #[derive(Default, Debug, Clone, PartialEq, Hash)]
 pub struct Tr4momme4 {
-    #[asn(complex(Tplain, tag(UNIVERSAL(16))))] pub f0: Tplain,
-    #[asn(optional(complex(Tsmall, tag(UNIVERSAL(2)))))] pub f1: Option<Tsmall>,
-    #[asn(complex(Tplain, tag(UNIVERSAL(16))))] pub f2: Tplain,
-    #[asn(complex(Tsmall, tag(UNIVERSAL(2))))] pub f3: Tsmall,
+    #[asn(complex(Tchoice, tag(UNIVERSAL(1))))] pub f0: Tchoice,
+    #[asn(optional(complex(Tplain, tag(UNIVERSAL(16)))))] pub f1: Option<Tplain>,
+    #[asn(complex(Tsmall, tag(UNIVERSAL(2))))] pub f2: Tsmall,
+    #[asn(complex(Tchoice, tag(UNIVERSAL(1))))] pub f3: Tchoice,
 }
 
 impl Tr4momme4 {
@@ -303,10 +341,10 @@ impl Tr4momme4 {
 
 #[derive(Default, Debug, Clone, PartialEq, Hash)]
 pub struct Tr4oommn {
-    #[asn(optional(complex(Tplain, tag(UNIVERSAL(16)))))] pub f0: Option<Tplain>,
-    #[asn(optional(complex(Tsmall, tag(UNIVERSAL(2)))))] pub f1: Option<Tsmall>,
-    #[asn(complex(Tplain, tag(UNIVERSAL(16))))] pub f2: Tplain,
-    #[asn(complex(Tsmall, tag(UNIVERSAL(2))))] pub f3: Tsmall,
+    #[asn(optional(complex(Tchoice, tag(UNIVERSAL(1)))))] pub f0: Option<Tchoice>,
+    #[asn(optional(complex(Tplain, tag(UNIVERSAL(16)))))] pub f1: Option<Tplain>,
+    #[asn(complex(Tsmall, tag(UNIVERSAL(2))))] pub f2: Tsmall,
+    #[asn(complex(Tchoice, tag(UNIVERSAL(1))))] pub f3: Tchoice,
 }
 
 impl Tr4oommn {
@@ -316,10 +354,10 @@ impl Tr4oommn {
 
 #[derive(Default, Debug, Clone, PartialEq, Hash)]
 pub struct Tr4oomme0 {
-    #[asn(optional(complex(Tplain, tag(UNIVERSAL(16)))))] pub f0: Option<Tplain>,
-    #[asn(optional(complex(Tsmall, tag(UNIVERSAL(2)))))] pub f1: Option<Tsmall>,
-    #[asn(optional(complex(Tplain, tag(UNIVERSAL(16)))))] pub f2: Option<Tplain>,
-    #[asn(optional(complex(Tsmall, tag(UNIVERSAL(2)))))] pub f3: Option<Tsmall>,
+    #[asn(optional(complex(Tchoice, tag(UNIVERSAL(1)))))] pub f0: Option<Tchoice>,
+    #[asn(optional(complex(Tplain, tag(UNIVERSAL(16)))))] pub f1: Option<Tplain>,
+    #[asn(optional(complex(Tsmall, tag(UNIVERSAL(2)))))] pub f2: Option<Tsmall>,
+    #[asn(optional(complex(Tchoice, tag(UNIVERSAL(1)))))] pub f3: Option<Tchoice>,
 }
 
 impl Tr4oomme0 {
@@ -329,10 +367,10 @@ impl Tr4oomme0 {
 
 #[derive(Default, Debug, Clone, PartialEq, Hash)]
 pub struct Tr4oomme1 {
-    #[asn(optional(complex(Tplain, tag(UNIVERSAL(16)))))] pub f0: Option<Tplain>,
-    #[asn(optional(complex(Tsmall, tag(UNIVERSAL(2)))))] pub f1: Option<Tsmall>,
-    #[asn(optional(complex(Tplain, tag(UNIVERSAL(16)))))] pub f2: Option<Tplain>,
-    #[asn(optional(complex(Tsmall, tag(UNIVERSAL(2)))))] pub f3: Option<Tsmall>,
+    #[asn(optional(complex(Tchoice, tag(UNIVERSAL(1)))))] pub f0: Option<Tchoice>,
+    #[asn(optional(complex(Tplain, tag(UNIVERSAL(16)))))] pub f1: Option<Tplain>,
+    #[asn(optional(complex(Tsmall, tag(UNIVERSAL(2)))))] pub f2: Option<Tsmall>,
+    #[asn(optional(complex(Tchoice, tag(UNIVERSAL(1)))))] pub f3: Option<Tchoice>,
 }
 
 impl Tr4oomme1 {
@@ -342,10 +380,10 @@ impl Tr4oomme1 {
 
 #[derive(Default, Debug, Clone, PartialEq, Hash)]
 pub struct Tr4oomme2 {
-    #[asn(optional(complex(Tplain, tag(UNIVERSAL(16)))))] pub f0: Option<Tplain>,
-    #[asn(optional(complex(Tsmall, tag(UNIVERSAL(2)))))] pub f1: Option<Tsmall>,
-    #[asn(optional(complex(Tplain, tag(UNIVERSAL(16)))))] pub f2: Option<Tplain>,
-    #[asn(optional(complex(Tsmall, tag(UNIVERSAL(2)))))] pub f3: Option<Tsmall>,
+    #[asn(optional(complex(Tchoice, tag(UNIVERSAL(1)))))] pub f0: Option<Tchoice>,
+    #[asn(optional(complex(Tplain, tag(UNIVERSAL(16)))))] pub f1: Option<Tplain>,
+    #[asn(optional(complex(Tsmall, tag(UNIVERSAL(2)))))] pub f2: Option<Tsmall>,
+    #[asn(optional(complex(Tchoice, tag(UNIVERSAL(1)))))] pub f3: Option<Tchoice>,
 }
 
 impl Tr4oomme2 {
@@ -355,10 +393,10 @@ impl Tr4oomme2 {
 
 #[derive(Default, Debug, Clone, PartialEq, Hash)]
 pub struct Tr4oomme3 {
-    #[asn(optional(complex(Tplain, tag(UNIVERSAL(16)))))] pub f0: Option<Tplain>,
-    #[asn(optional(complex(Tsmall, tag(UNIVERSAL(2)))))] pub f1: Option<Tsmall>,
-    #[asn(complex(Tplain, tag(UNIVERSAL(16))))] pub f2: Tplain,
-    #[asn(optional(complex(Tsmall, tag(UNIVERSAL(2)))))] pub f3: Option<Tsmall>,
+    #[asn(optional(complex(Tchoice, tag(UNIVERSAL(1)))))] pub f0: Option<Tchoice>,
+    #[asn(optional(complex(Tplain, tag(UNIVERSAL(16)))))] pub f1: Option<Tplain>,
+    #[asn(complex(Tsmall, tag(UNIVERSAL(2))))] pub f2: Tsmall,
+    #[asn(optional(complex(Tchoice, tag(UNIVERSAL(1)))))] pub f3: Option<Tchoice>,
 }
 
 impl Tr4oomme3 {
@@ -368,10 +406,10 @@ impl Tr4oomme3 {
 
 #[derive(Default, Debug, Clone, PartialEq, Hash)]
 pub struct Tr4oomme4 {
-    #[asn(optional(complex(Tplain, tag(UNIVERSAL(16)))))] pub f0: Option<Tplain>,
-    #[asn(optional(complex(Tsmall, tag(UNIVERSAL(2)))))] pub f1: Option<Tsmall>,
-    #[asn(complex(Tplain, tag(UNIVERSAL(16))))] pub f2: Tplain,
-    #[asn(complex(Tsmall, tag(UNIVERSAL(2))))] pub f3: Tsmall,
+    #[asn(optional(complex(Tchoice, tag(UNIVERSAL(1)))))] pub f0: Option<Tchoice>,
+    #[asn(optional(complex(Tplain, tag(UNIVERSAL(16)))))] pub f1: Option<Tplain>,
+    #[asn(complex(Tsmall, tag(UNIVERSAL(2))))] pub f2: Tsmall,
+    #[asn(complex(Tchoice, tag(UNIVERSAL(1))))] pub f3: Tchoice,
 }
 
 impl Tr4oomme4 {
@@ -381,10 +419,10 @@ impl Tr4oomme4 {
 
 #[derive(Default, Debug, Clone, PartialEq, Hash)]
 pub struct Tr4mmomn {
-    #[asn(complex(Tplain, tag(UNIVERSAL(16))))] pub f0: Tplain,
-    #[asn(complex(Tsmall, tag(UNIVERSAL(2))))] pub f1: Tsmall,
-    #[asn(optional(complex(Tplain, tag(UNIVERSAL(16)))))] pub f2: Option<Tplain>,
-    #[asn(complex(Tsmall, tag(UNIVERSAL(2))))] pub f3: Tsmall,
+    #[asn(complex(Tchoice, tag(UNIVERSAL(1))))] pub f0: Tchoice,
+    #[asn(complex(Tplain, tag(UNIVERSAL(16))))] pub f1: Tplain,
+    #[asn(optional(complex(Tsmall, tag(UNIVERSAL(2)))))] pub f2: Option<Tsmall>,
+    #[asn(complex(Tchoice, tag(UNIVERSAL(1))))] pub f3: Tchoice,
 }
 
 impl Tr4mmomn {
@@ -394,10 +432,10 @@ impl Tr4mmomn {
 
 #[derive(Default, Debug, Clone, PartialEq, Hash)]
 pub struct Tr4mmome0 {
-    #[asn(complex(Tplain, tag(UNIVERSAL(16))))] pub f0: Tplain,
-    #[asn(optional(complex(Tsmall, tag(UNIVERSAL(2)))))] pub f1: Option<Tsmall>,
-    #[asn(optional(complex(Tplain, tag(UNIVERSAL(16)))))] pub f2: Option<Tplain>,
-    #[asn(optional(complex(Tsmall, tag(UNIVERSAL(2)))))] pub f3: Option<Tsmall>,
+    #[asn(complex(Tchoice, tag(UNIVERSAL(1))))] pub f0: Tchoice,
+    #[asn(optional(complex(Tplain, tag(UNIVERSAL(16)))))] pub f1: Option<Tplain>,
+    #[asn(optional(complex(Tsmall, tag(UNIVERSAL(2)))))] pub f2: Option<Tsmall>,
+    #[asn(optional(complex(Tchoice, tag(UNIVERSAL(1)))))] pub f3: Option<Tchoice>,
 }
 
 impl Tr4mmome0 {
@@ -407,10 +445,10 @@ impl Tr4mmome0 {
 
 #[derive(Default, Debug, Clone, PartialEq, Hash)]
 pub struct Tr4mmome1 {
-    #[asn(complex(Tplain, tag(UNIVERSAL(16))))] pub f0: Tplain,
-    #[asn(optional(complex(Tsmall, tag(UNIVERSAL(2)))))] pub f1: Option<Tsmall>,
-    #[asn(optional(complex(Tplain, tag(UNIVERSAL(16)))))] pub f2: Option<Tplain>,
-    #[asn(optional(complex(Tsmall, tag(UNIVERSAL(2)))))] pub f3: Option<Tsmall>,
+    #[asn(complex(Tchoice, tag(UNIVERSAL(1))))] pub f0: Tchoice,
+    #[asn(optional(complex(Tplain, tag(UNIVERSAL(16)))))] pub f1: Option<Tplain>,
+    #[asn(optional(complex(Tsmall, tag(UNIVERSAL(2)))))] pub f2: Option<Tsmall>,
+    #[asn(optional(complex(Tchoice, tag(UNIVERSAL(1)))))] pub f3: Option<Tchoice>,
 }
 
 impl Tr4mmome1 {
@@ -420,10 +458,10 @@ impl Tr4mmome1 {
 
 #[derive(Default, Debug, Clone, PartialEq, Hash)]
 pub struct Tr4mmome2 {
-    #[asn(complex(Tplain, tag(UNIVERSAL(16))))] pub f0: Tplain,
-    #[asn(complex(Tsmall, tag(UNIVERSAL(2))))] pub f1: Tsmall,
-    #[asn(optional(complex(Tplain, tag(UNIVERSAL(16)))))] pub f2: Option<Tplain>,
-    #[asn(optional(complex(Tsmall, tag(UNIVERSAL(2)))))] pub f3: Option<Tsmall>,
+    #[asn(complex(Tchoice, tag(UNIVERSAL(1))))] pub f0: Tchoice,
+    #[asn(complex(Tplain, tag(UNIVERSAL(16))))] pub f1: Tplain,
+    #[asn(optional(complex(Tsmall, tag(UNIVERSAL(2)))))] pub f2: Option<Tsmall>,
+    #[asn(optional(complex(Tchoice, tag(UNIVERSAL(1)))))] pub f3: Option<Tchoice>,
 }
 
 impl Tr4mmome2 {
@@ -433,10 +471,10 @@ impl Tr4mmome2 {
 
 #[derive(Default, Debug, Clone, PartialEq, Hash)]
 pub struct Tr4mmome3 {
-    #[asn(complex(Tplain, tag(UNIVERSAL(16))))] pub f0: Tplain,
-    #[asn(complex(Tsmall, tag(UNIVERSAL(2))))] pub f1: Tsmall,
-    #[asn(optional(complex(Tplain, tag(UNIVERSAL(16)))))] pub f2: Option<Tplain>,
-    #[asn(optional(complex(Tsmall, tag(UNIVERSAL(2)))))] pub f3: Option<Tsmall>,
+    #[asn(complex(Tchoice, tag(UNIVERSAL(1))))] pub f0: Tchoice,
+    #[asn(complex(Tplain, tag(UNIVERSAL(16))))] pub f1: Tplain,
+    #[asn(optional(complex(Tsmall, tag(UNIVERSAL(2)))))] pub f2: Option<Tsmall>,
+    #[asn(optional(complex(Tchoice, tag(UNIVERSAL(1)))))] pub f3: Option<Tchoice>,
 }
 
 impl Tr4mmome3 {
@@ -446,10 +484,10 @@ impl Tr4mmome3 {
 
 #[derive(Default, Debug, Clone, PartialEq, Hash)]
 pub struct Tr4mmome4 {
-    #[asn(complex(Tplain, tag(UNIVERSAL(16))))] pub f0: Tplain,
-    #[asn(complex(Tsmall, tag(UNIVERSAL(2))))] pub f1: Tsmall,
-    #[asn(optional(complex(Tplain, tag(UNIVERSAL(16)))))] pub f2: Option<Tplain>,
-    #[asn(complex(Tsmall, tag(UNIVERSAL(2))))] pub f3: Tsmall,
+    #[asn(complex(Tchoice, tag(UNIVERSAL(1))))] pub f0: Tchoice,
+    #[asn(complex(Tplain, tag(UNIVERSAL(16))))] pub f1: Tplain,
+    #[asn(optional(complex(Tsmall, tag(UNIVERSAL(2)))))] pub f2: Option<Tsmall>,
+    #[asn(complex(Tchoice, tag(UNIVERSAL(1))))] pub f3: Tchoice,
 }
 
 impl Tr4mmome4 {
@@ -459,10 +497,10 @@ impl Tr4mmome4 {
 
 #[derive(Default, Debug, Clone, PartialEq, Hash)]
 pub struct Tr4omomn {
-    #[asn(optional(complex(Tplain, tag(UNIVERSAL(16)))))] pub f0: Option<Tplain>,
-    #[asn(complex(Tsmall, tag(UNIVERSAL(2))))] pub f1: Tsmall,
-    #[asn(optional(complex(Tplain, tag(UNIVERSAL(16)))))] pub f2: Option<Tplain>,
-    #[asn(complex(Tsmall, tag(UNIVERSAL(2))))] pub f3: Tsmall,
+    #[asn(optional(complex(Tchoice, tag(UNIVERSAL(1)))))] pub f0: Option<Tchoice>,
+    #[asn(complex(Tplain, tag(UNIVERSAL(16))))] pub f1: Tplain,
+    #[asn(optional(complex(Tsmall, tag(UNIVERSAL(2)))))] pub f2: Option<Tsmall>,
+    #[asn(complex(Tchoice, tag(UNIVERSAL(1))))] pub f3: Tchoice,
 }
 
 impl Tr4omomn {
@@ -472,10 +510,10 @@ impl Tr4omomn {
 
 #[derive(Default, Debug, Clone, PartialEq, Hash)]
 pub struct Tr4omome0 {
-    #[asn(optional(complex(Tplain, tag(UNIVERSAL(16)))))] pub f0: Option<Tplain>,
-    #[asn(optional(complex(Tsmall, tag(UNIVERSAL(2)))))] pub f1: Option<Tsmall>,
-    #[asn(optional(complex(Tplain, tag(UNIVERSAL(16)))))] pub f2: Option<Tplain>,
-    #[asn(optional(complex(Tsmall, tag(UNIVERSAL(2)))))] pub f3: Option<Tsmall>,
+    #[asn(optional(complex(Tchoice, tag(UNIVERSAL(1)))))] pub f0: Option<Tchoice>,
+    #[asn(optional(complex(Tplain, tag(UNIVERSAL(16)))))] pub f1: Option<Tplain>,
+    #[asn(optional(complex(Tsmall, tag(UNIVERSAL(2)))))] pub f2: Option<Tsmall>,
+    #[asn(optional(complex(Tchoice, tag(UNIVERSAL(1)))))] pub f3: Option<Tchoice>,
 }
 
 impl Tr4omome0 {
@@ -485,10 +523,10 @@ impl Tr4omome0 {
 
 #[derive(Default, Debug, Clone, PartialEq, Hash)]
 pub struct Tr4omome1 {
-    #[asn(optional(complex(Tplain, tag(UNIVERSAL(16)))))] pub f0: Option<Tplain>,
-    #[asn(optional(complex(Tsmall, tag(UNIVERSAL(2)))))] pub f1: Option<Tsmall>,
-    #[asn(optional(complex(Tplain, tag(UNIVERSAL(16)))))] pub f2: Option<Tplain>,
-    #[asn(optional(complex(Tsmall, tag(UNIVERSAL(2)))))] pub f3: Option<Tsmall>,
+    #[asn(optional(complex(Tchoice, tag(UNIVERSAL(1)))))] pub f0: Option<Tchoice>,
+    #[asn(optional(complex(Tplain, tag(UNIVERSAL(16)))))] pub f1: Option<Tplain>,
+    #[asn(optional(complex(Tsmall, tag(UNIVERSAL(2)))))] pub f2: Option<Tsmall>,
+    #[asn(optional(complex(Tchoice, tag(UNIVERSAL(1)))))] pub f3: Option<Tchoice>,
 }
 
 impl Tr4omome1 {
@@ -498,10 +536,10 @@ impl Tr4omome1 {
 
 #[derive(Default, Debug, Clone, PartialEq, Hash)]
 pub struct Tr4omome2 {
-    #[asn(optional(complex(Tplain, tag(UNIVERSAL(16)))))] pub f0: Option<Tplain>,
-    #[asn(complex(Tsmall, tag(UNIVERSAL(2))))] pub f1: Tsmall,
-    #[asn(optional(complex(Tplain, tag(UNIVERSAL(16)))))] pub f2: Option<Tplain>,
-    #[asn(optional(complex(Tsmall, tag(UNIVERSAL(2)))))] pub f3: Option<Tsmall>,
+    #[asn(optional(complex(Tchoice, tag(UNIVERSAL(1)))))] pub f0: Option<Tchoice>,
+    #[asn(complex(Tplain, tag(UNIVERSAL(16))))] pub f1: Tplain,
+    #[asn(optional(complex(Tsmall, tag(UNIVERSAL(2)))))] pub f2: Option<Tsmall>,
+    #[asn(optional(complex(Tchoice, tag(UNIVERSAL(1)))))] pub f3: Option<Tchoice>,
 }
 
 impl Tr4omome2 {
@@ -511,10 +549,10 @@ impl Tr4omome2 {
 
 #[derive(Default, Debug, Clone, PartialEq, Hash)]
 pub struct Tr4omome3 {
-    #[asn(optional(complex(Tplain, tag(UNIVERSAL(16)))))] pub f0: Option<Tplain>,
-    #[asn(complex(Tsmall, tag(UNIVERSAL(2))))] pub f1: Tsmall,
-    #[asn(optional(complex(Tplain, tag(UNIVERSAL(16)))))] pub f2: Option<Tplain>,
-    #[asn(optional(complex(Tsmall, tag(UNIVERSAL(2)))))] pub f3: Option<Tsmall>,
+    #[asn(optional(complex(Tchoice, tag(UNIVERSAL(1)))))] pub f0: Option<Tchoice>,
+    #[asn(complex(Tplain, tag(UNIVERSAL(16))))] pub f1: Tplain,
+    #[asn(optional(complex(Tsmall, tag(UNIVERSAL(2)))))] pub f2: Option<Tsmall>,
+    #[asn(optional(complex(Tchoice, tag(UNIVERSAL(1)))))] pub f3: Option<Tchoice>,
 }
 
 impl Tr4omome3 {
@@ -524,10 +562,10 @@ impl Tr4omome3 {
 
 #[derive(Default, Debug, Clone, PartialEq, Hash)]
 pub struct Tr4omome4 {
-    #[asn(optional(complex(Tplain, tag(UNIVERSAL(16)))))] pub f0: Option<Tplain>,
-    #[asn(complex(Tsmall, tag(UNIVERSAL(2))))] pub f1: Tsmall,
-    #[asn(optional(complex(Tplain, tag(UNIVERSAL(16)))))] pub f2: Option<Tplain>,
-    #[asn(complex(Tsmall, tag(UNIVERSAL(2))))] pub f3: Tsmall,
+    #[asn(optional(complex(Tchoice, tag(UNIVERSAL(1)))))] pub f0: Option<Tchoice>,
+    #[asn(complex(Tplain, tag(UNIVERSAL(16))))] pub f1: Tplain,
+    #[asn(optional(complex(Tsmall, tag(UNIVERSAL(2)))))] pub f2: Option<Tsmall>,
+    #[asn(complex(Tchoice, tag(UNIVERSAL(1))))] pub f3: Tchoice,
 }
 
 impl Tr4omome4 {
@@ -537,10 +575,10 @@ impl Tr4omome4 {
 
 #[derive(Default, Debug, Clone, PartialEq, Hash)]
 pub struct Tr4moomn {
-    #[asn(complex(Tplain, tag(UNIVERSAL(16))))] pub f0: Tplain,
-    #[asn(optional(complex(Tsmall, tag(UNIVERSAL(2)))))] pub f1: Option<Tsmall>,
-    #[asn(optional(complex(Tplain, tag(UNIVERSAL(16)))))] pub f2: Option<Tplain>,
-    #[asn(complex(Tsmall, tag(UNIVERSAL(2))))] pub f3: Tsmall,
+    #[asn(complex(Tchoice, tag(UNIVERSAL(1))))] pub f0: Tchoice,
+    #[asn(optional(complex(Tplain, tag(UNIVERSAL(16)))))] pub f1: Option<Tplain>,
+    #[asn(optional(complex(Tsmall, tag(UNIVERSAL(2)))))] pub f2: Option<Tsmall>,
+    #[asn(complex(Tchoice, tag(UNIVERSAL(1))))] pub f3: Tchoice,
 }
 
 impl Tr4moomn {
@@ -550,10 +588,10 @@ impl Tr4moomn {
 
 #[derive(Default, Debug, Clone, PartialEq, Hash)]
 pub struct Tr4moome0 {
-    #[asn(complex(Tplain, tag(UNIVERSAL(16))))] pub f0: Tplain,
-    #[asn(optional(complex(Tsmall, tag(UNIVERSAL(2)))))] pub f1: Option<Tsmall>,
-    #[asn(optional(complex(Tplain, tag(UNIVERSAL(16)))))] pub f2: Option<Tplain>,
-    #[asn(optional(complex(Tsmall, tag(UNIVERSAL(2)))))] pub f3: Option<Tsmall>,
+    #[asn(complex(Tchoice, tag(UNIVERSAL(1))))] pub f0: Tchoice,
+    #[asn(optional(complex(Tplain, tag(UNIVERSAL(16)))))] pub f1: Option<Tplain>,
+    #[asn(optional(complex(Tsmall, tag(UNIVERSAL(2)))))] pub f2: Option<Tsmall>,
+    #[asn(optional(complex(Tchoice, tag(UNIVERSAL(1)))))] pub f3: Option<Tchoice>,
 }
 
 impl Tr4moome0 {
@@ -563,10 +601,10 @@ impl Tr4moome0 {
 
 #[derive(Default, Debug, Clone, PartialEq, Hash)]
 pub struct Tr4moome1 {
-    #[asn(complex(Tplain, tag(UNIVERSAL(16))))] pub f0: Tplain,
-    #[asn(optional(complex(Tsmall, tag(UNIVERSAL(2)))))] pub f1: Option<Tsmall>,
-    #[asn(optional(complex(Tplain, tag(UNIVERSAL(16)))))] pub f2: Option<Tplain>,
-    #[asn(optional(complex(Tsmall, tag(UNIVERSAL(2)))))] pub f3: Option<Tsmall>,
+    #[asn(complex(Tchoice, tag(UNIVERSAL(1))))] pub f0: Tchoice,
+    #[asn(optional(complex(Tplain, tag(UNIVERSAL(16)))))] pub f1: Option<Tplain>,
+    #[asn(optional(complex(Tsmall, tag(UNIVERSAL(2)))))] pub f2: Option<Tsmall>,
+    #[asn(optional(complex(Tchoice, tag(UNIVERSAL(1)))))] pub f3: Option<Tchoice>,
 }
 
 impl Tr4moome1 {
@@ -576,10 +614,10 @@ impl Tr4moome1 {
 
 #[derive(Default, Debug, Clone, PartialEq, Hash)]
 pub struct Tr4moome2 {
-    #[asn(complex(Tplain, tag(UNIVERSAL(16))))] pub f0: Tplain,
-    #[asn(optional(complex(Tsmall, tag(UNIVERSAL(2)))))] pub f1: Option<Tsmall>,
-    #[asn(optional(complex(Tplain, tag(UNIVERSAL(16)))))] pub f2: Option<Tplain>,
-    #[asn(optional(complex(Tsmall, tag(UNIVERSAL(2)))))] pub f3: Option<Tsmall>,
+    #[asn(complex(Tchoice, tag(UNIVERSAL(1))))] pub f0: Tchoice,
+    #[asn(optional(complex(Tplain, tag(UNIVERSAL(16)))))] pub f1: Option<Tplain>,
+    #[asn(optional(complex(Tsmall, tag(UNIVERSAL(2)))))] pub f2: Option<Tsmall>,
+    #[asn(optional(complex(Tchoice, tag(UNIVERSAL(1)))))] pub f3: Option<Tchoice>,
 }
 
 impl Tr4moome2 {
@@ -589,10 +627,10 @@ impl Tr4moome2 {
 
 #[derive(Default, Debug, Clone, PartialEq, Hash)]
 pub struct Tr4moome3 {
-    #[asn(complex(Tplain, tag(UNIVERSAL(16))))] pub f0: Tplain,
-    #[asn(optional(complex(Tsmall, tag(UNIVERSAL(2)))))] pub f1: Option<Tsmall>,
-    #[asn(optional(complex(Tplain, tag(UNIVERSAL(16)))))] pub f2: Option<Tplain>,
-    #[asn(optional(complex(Tsmall, tag(UNIVERSAL(2)))))] pub f3: Option<Tsmall>,
+    #[asn(complex(Tchoice, tag(UNIVERSAL(1))))] pub f0: Tchoice,
+    #[asn(optional(complex(Tplain, tag(UNIVERSAL(16)))))] pub f1: Option<Tplain>,
+    #[asn(optional(complex(Tsmall, tag(UNIVERSAL(2)))))] pub f2: Option<Tsmall>,
+    #[asn(optional(complex(Tchoice, tag(UNIVERSAL(1)))))] pub f3: Option<Tchoice>,
 }
 
 impl Tr4moome3 {
@@ -602,10 +640,10 @@ impl Tr4moome3 {
 
 #[derive(Default, Debug, Clone, PartialEq, Hash)]
 pub struct Tr4moome4 {
-    #[asn(complex(Tplain, tag(UNIVERSAL(16))))] pub f0: Tplain,
-    #[asn(optional(complex(Tsmall, tag(UNIVERSAL(2)))))] pub f1: Option<Tsmall>,
-    #[asn(optional(complex(Tplain, tag(UNIVERSAL(16)))))] pub f2: Option<Tplain>,
-    #[asn(complex(Tsmall, tag(UNIVERSAL(2))))] pub f3: Tsmall,
+    #[asn(complex(Tchoice, tag(UNIVERSAL(1))))] pub f0: Tchoice,
+    #[asn(optional(complex(Tplain, tag(UNIVERSAL(16)))))] pub f1: Option<Tplain>,
+    #[asn(optional(complex(Tsmall, tag(UNIVERSAL(2)))))] pub f2: Option<Tsmall>,
+    #[asn(complex(Tchoice, tag(UNIVERSAL(1))))] pub f3: Tchoice,
 }
 
 impl Tr4moome4 {
@@ -615,10 +653,10 @@ impl Tr4moome4 {
 
 #[derive(Default, Debug, Clone, PartialEq, Hash)]
 pub struct Tr4ooomn {
-    #[asn(optional(complex(Tplain, tag(UNIVERSAL(16)))))] pub f0: Option<Tplain>,
-    #[asn(optional(complex(Tsmall, tag(UNIVERSAL(2)))))] pub f1: Option<Tsmall>,
-    #[asn(optional(complex(Tplain, tag(UNIVERSAL(16)))))] pub f2: Option<Tplain>,
-    #[asn(complex(Tsmall, tag(UNIVERSAL(2))))] pub f3: Tsmall,
+    #[asn(optional(complex(Tchoice, tag(UNIVERSAL(1)))))] pub f0: Option<Tchoice>,
+    #[asn(optional(complex(Tplain, tag(UNIVERSAL(16)))))] pub f1: Option<Tplain>,
+    #[asn(optional(complex(Tsmall, tag(UNIVERSAL(2)))))] pub f2: Option<Tsmall>,
+    #[asn(complex(Tchoice, tag(UNIVERSAL(1))))] pub f3: Tchoice,
 }
 
 impl Tr4ooomn {
@@ -628,10 +666,10 @@ impl Tr4ooomn {
 
 #[derive(Default, Debug, Clone, PartialEq, Hash)]
 pub struct Tr4ooome0 {
-    #[asn(optional(complex(Tplain, tag(UNIVERSAL(16)))))] pub f0: Option<Tplain>,
-    #[asn(optional(complex(Tsmall, tag(UNIVERSAL(2)))))] pub f1: Option<Tsmall>,
-    #[asn(optional(complex(Tplain, tag(UNIVERSAL(16)))))] pub f2: Option<Tplain>,
-    #[asn(optional(complex(Tsmall, tag(UNIVERSAL(2)))))] pub f3: Option<Tsmall>,
+    #[asn(optional(complex(Tchoice, tag(UNIVERSAL(1)))))] pub f0: Option<Tchoice>,
+    #[asn(optional(complex(Tplain, tag(UNIVERSAL(16)))))] pub f1: Option<Tplain>,
+    #[asn(optional(complex(Tsmall, tag(UNIVERSAL(2)))))] pub f2: Option<Tsmall>,
+    #[asn(optional(complex(Tchoice, tag(UNIVERSAL(1)))))] pub f3: Option<Tchoice>,
 }
 
 impl Tr4ooome0 {
@@ -641,10 +679,10 @@ impl Tr4ooome0 {
 
 #[derive(Default, Debug, Clone, PartialEq, Hash)]
 pub struct Tr4ooome1 {
-    #[asn(optional(complex(Tplain, tag(UNIVERSAL(16)))))] pub f0: Option<Tplain>,
-    #[asn(optional(complex(Tsmall, tag(UNIVERSAL(2)))))] pub f1: Option<Tsmall>,
-    #[asn(optional(complex(Tplain, tag(UNIVERSAL(16)))))] pub f2: Option<Tplain>,
-    #[asn(optional(complex(Tsmall, tag(UNIVERSAL(2)))))] pub f3: Option<Tsmall>,
+    #[asn(optional(complex(Tchoice, tag(UNIVERSAL(1)))))] pub f0: Option<Tchoice>,
+    #[asn(optional(complex(Tplain, tag(UNIVERSAL(16)))))] pub f1: Option<Tplain>,
+    #[asn(optional(complex(Tsmall, tag(UNIVERSAL(2)))))] pub f2: Option<Tsmall>,
+    #[asn(optional(complex(Tchoice, tag(UNIVERSAL(1)))))] pub f3: Option<Tchoice>,
 }
 
 impl Tr4ooome1 {
@@ -654,10 +692,10 @@ impl Tr4ooome1 {
 
 #[derive(Default, Debug, Clone, PartialEq, Hash)]
 pub struct Tr4ooome2 {
-    #[asn(optional(complex(Tplain, tag(UNIVERSAL(16)))))] pub f0: Option<Tplain>,
-    #[asn(optional(complex(Tsmall, tag(UNIVERSAL(2)))))] pub f1: Option<Tsmall>,
-    #[asn(optional(complex(Tplain, tag(UNIVERSAL(16)))))] pub f2: Option<Tplain>,
-    #[asn(optional(complex(Tsmall, tag(UNIVERSAL(2)))))] pub f3: Option<Tsmall>,
+    #[asn(optional(complex(Tchoice, tag(UNIVERSAL(1)))))] pub f0: Option<Tchoice>,
+    #[asn(optional(complex(Tplain, tag(UNIVERSAL(16)))))] pub f1: Option<Tplain>,
+    #[asn(optional(complex(Tsmall, tag(UNIVERSAL(2)))))] pub f2: Option<Tsmall>,
+    #[asn(optional(complex(Tchoice, tag(UNIVERSAL(1)))))] pub f3: Option<Tchoice>,
 }
 
 impl Tr4ooome2 {
@@ -667,10 +705,10 @@ impl Tr4ooome2 {
 
 #[derive(Default, Debug, Clone, PartialEq, Hash)]
 pub struct Tr4ooome3 {
-    #[asn(optional(complex(Tplain, tag(UNIVERSAL(16)))))] pub f0: Option<Tplain>,
-    #[asn(optional(complex(Tsmall, tag(UNIVERSAL(2)))))] pub f1: Option<Tsmall>,
-    #[asn(optional(complex(Tplain, tag(UNIVERSAL(16)))))] pub f2: Option<Tplain>,
-    #[asn(optional(complex(Tsmall, tag(UNIVERSAL(2)))))] pub f3: Option<Tsmall>,
+    #[asn(optional(complex(Tchoice, tag(UNIVERSAL(1)))))] pub f0: Option<Tchoice>,
+    #[asn(optional(complex(Tplain, tag(UNIVERSAL(16)))))] pub f1: Option<Tplain>,
+    #[asn(optional(complex(Tsmall, tag(UNIVERSAL(2)))))] pub f2: Option<Tsmall>,
+    #[asn(optional(complex(Tchoice, tag(UNIVERSAL(1)))))] pub f3: Option<Tchoice>,
 }
 
 impl Tr4ooome3 {
@@ -680,10 +718,10 @@ impl Tr4ooome3 {
 
 #[derive(Default, Debug, Clone, PartialEq, Hash)]
 pub struct Tr4ooome4 {
-    #[asn(optional(complex(Tplain, tag(UNIVERSAL(16)))))] pub f0: Option<Tplain>,
-    #[asn(optional(complex(Tsmall, tag(UNIVERSAL(2)))))] pub f1: Option<Tsmall>,
-    #[asn(optional(complex(Tplain, tag(UNIVERSAL(16)))))] pub f2: Option<Tplain>,
-    #[asn(complex(Tsmall, tag(UNIVERSAL(2))))] pub f3: Tsmall,
+    #[asn(optional(complex(Tchoice, tag(UNIVERSAL(1)))))] pub f0: Option<Tchoice>,
+    #[asn(optional(complex(Tplain, tag(UNIVERSAL(16)))))] pub f1: Option<Tplain>,
+    #[asn(optional(complex(Tsmall, tag(UNIVERSAL(2)))))] pub f2: Option<Tsmall>,
+    #[asn(complex(Tchoice, tag(UNIVERSAL(1))))] pub f3: Tchoice,
 }
 
 impl Tr4ooome4 {
@@ -693,10 +731,10 @@ impl Tr4ooome4 {
 
 #[derive(Default, Debug, Clone, PartialEq, Hash)]
 pub struct Tr4mmmon {
-    #[asn(complex(Tplain, tag(UNIVERSAL(16))))] pub f0: Tplain,
-    #[asn(complex(Tsmall, tag(UNIVERSAL(2))))] pub f1: Tsmall,
-    #[asn(complex(Tplain, tag(UNIVERSAL(16))))] pub f2: Tplain,
-    #[asn(optional(complex(Tsmall, tag(UNIVERSAL(2)))))] pub f3: Option<Tsmall>,
+    #[asn(complex(Tchoice, tag(UNIVERSAL(1))))] pub f0: Tchoice,
+    #[asn(complex(Tplain, tag(UNIVERSAL(16))))] pub f1: Tplain,
+    #[asn(complex(Tsmall, tag(UNIVERSAL(2))))] pub f2: Tsmall,
+    #[asn(optional(complex(Tchoice, tag(UNIVERSAL(1)))))] pub f3: Option<Tchoice>,
 }
 
 impl Tr4mmmon {
@@ -706,10 +744,10 @@ impl Tr4mmmon {
 
 #[derive(Default, Debug, Clone, PartialEq, Hash)]
 pub struct Tr4mmmoe0 {
-    #[asn(complex(Tplain, tag(UNIVERSAL(16))))] pub f0: Tplain,
-    #[asn(optional(complex(Tsmall, tag(UNIVERSAL(2)))))] pub f1: Option<Tsmall>,
-    #[asn(optional(complex(Tplain, tag(UNIVERSAL(16)))))] pub f2: Option<Tplain>,
-    #[asn(optional(complex(Tsmall, tag(UNIVERSAL(2)))))] pub f3: Option<Tsmall>,
+    #[asn(complex(Tchoice, tag(UNIVERSAL(1))))] pub f0: Tchoice,
+    #[asn(optional(complex(Tplain, tag(UNIVERSAL(16)))))] pub f1: Option<Tplain>,
+    #[asn(optional(complex(Tsmall, tag(UNIVERSAL(2)))))] pub f2: Option<Tsmall>,
+    #[asn(optional(complex(Tchoice, tag(UNIVERSAL(1)))))] pub f3: Option<Tchoice>,
 }
 
 impl Tr4mmmoe0 {
@@ -719,10 +757,10 @@ impl Tr4mmmoe0 {
 
 #[derive(Default, Debug, Clone, PartialEq, Hash)]
 pub struct Tr4mmmoe1 {
-    #[asn(complex(Tplain, tag(UNIVERSAL(16))))] pub f0: Tplain,
-    #[asn(optional(complex(Tsmall, tag(UNIVERSAL(2)))))] pub f1: Option<Tsmall>,
-    #[asn(optional(complex(Tplain, tag(UNIVERSAL(16)))))] pub f2: Option<Tplain>,
-    #[asn(optional(complex(Tsmall, tag(UNIVERSAL(2)))))] pub f3: Option<Tsmall>,
+    #[asn(complex(Tchoice, tag(UNIVERSAL(1))))] pub f0: Tchoice,
+    #[asn(optional(complex(Tplain, tag(UNIVERSAL(16)))))] pub f1: Option<Tplain>,
+    #[asn(optional(complex(Tsmall, tag(UNIVERSAL(2)))))] pub f2: Option<Tsmall>,
+    #[asn(optional(complex(Tchoice, tag(UNIVERSAL(1)))))] pub f3: Option<Tchoice>,
 }
 
 impl Tr4mmmoe1 {
@@ -732,10 +770,10 @@ impl Tr4mmmoe1 {
 
 #[derive(Default, Debug, Clone, PartialEq, Hash)]
 pub struct Tr4mmmoe2 {
-    #[asn(complex(Tplain, tag(UNIVERSAL(16))))] pub f0: Tplain,
-    #[asn(complex(Tsmall, tag(UNIVERSAL(2))))] pub f1: Tsmall,
-    #[asn(optional(complex(Tplain, tag(UNIVERSAL(16)))))] pub f2: Option<Tplain>,
-    #[asn(optional(complex(Tsmall, tag(UNIVERSAL(2)))))] pub f3: Option<Tsmall>,
+    #[asn(complex(Tchoice, tag(UNIVERSAL(1))))] pub f0: Tchoice,
+    #[asn(complex(Tplain, tag(UNIVERSAL(16))))] pub f1: Tplain,
+    #[asn(optional(complex(Tsmall, tag(UNIVERSAL(2)))))] pub f2: Option<Tsmall>,
+    #[asn(optional(complex(Tchoice, tag(UNIVERSAL(1)))))] pub f3: Option<Tchoice>,
 }
 
 impl Tr4mmmoe2 {
@@ -745,10 +783,10 @@ impl Tr4mmmoe2 {
 
 #[derive(Default, Debug, Clone, PartialEq, Hash)]
 pub struct Tr4mmmoe3 {
-    #[asn(complex(Tplain, tag(UNIVERSAL(16))))] pub f0: Tplain,
-    #[asn(complex(Tsmall, tag(UNIVERSAL(2))))] pub f1: Tsmall,
-    #[asn(complex(Tplain, tag(UNIVERSAL(16))))] pub f2: Tplain,
-    #[asn(optional(complex(Tsmall, tag(UNIVERSAL(2)))))] pub f3: Option<Tsmall>,
+    #[asn(complex(Tchoice, tag(UNIVERSAL(1))))] pub f0: Tchoice,
+    #[asn(complex(Tplain, tag(UNIVERSAL(16))))] pub f1: Tplain,
+    #[asn(complex(Tsmall, tag(UNIVERSAL(2))))] pub f2: Tsmall,
+    #[asn(optional(complex(Tchoice, tag(UNIVERSAL(1)))))] pub f3: Option<Tchoice>,
 }
 
 impl Tr4mmmoe3 {
@@ -758,10 +796,10 @@ impl Tr4mmmoe3 {
 
 #[derive(Default, Debug, Clone, PartialEq, Hash)]
 pub struct Tr4mmmoe4 {
-    #[asn(complex(Tplain, tag(UNIVERSAL(16))))] pub f0: Tplain,
-    #[asn(complex(Tsmall, tag(UNIVERSAL(2))))] pub f1: Tsmall,
-    #[asn(complex(Tplain, tag(UNIVERSAL(16))))] pub f2: Tplain,
-    #[asn(optional(complex(Tsmall, tag(UNIVERSAL(2)))))] pub f3: Option<Tsmall>,
+    #[asn(complex(Tchoice, tag(UNIVERSAL(1))))] pub f0: Tchoice,
+    #[asn(complex(Tplain, tag(UNIVERSAL(16))))] pub f1: Tplain,
+    #[asn(complex(Tsmall, tag(UNIVERSAL(2))))] pub f2: Tsmall,
+    #[asn(optional(complex(Tchoice, tag(UNIVERSAL(1)))))] pub f3: Option<Tchoice>,
 }
 
 impl Tr4mmmoe4 {
@@ -771,10 +809,10 @@ impl Tr4mmmoe4 {
 
 #[derive(Default, Debug, Clone, PartialEq, Hash)]
 pub struct Tr4ommon {
-    #[asn(optional(complex(Tplain, tag(UNIVERSAL(16)))))] pub f0: Option<Tplain>,
-    #[asn(complex(Tsmall, tag(UNIVERSAL(2))))] pub f1: Tsmall,
-    #[asn(complex(Tplain, tag(UNIVERSAL(16))))] pub f2: Tplain,
-    #[asn(optional(complex(Tsmall, tag(UNIVERSAL(2)))))] pub f3: Option<Tsmall>,
+    #[asn(optional(complex(Tchoice, tag(UNIVERSAL(1)))))] pub f0: Option<Tchoice>,
+    #[asn(complex(Tplain, tag(UNIVERSAL(16))))] pub f1: Tplain,
+    #[asn(complex(Tsmall, tag(UNIVERSAL(2))))] pub f2: Tsmall,
+    #[asn(optional(complex(Tchoice, tag(UNIVERSAL(1)))))] pub f3: Option<Tchoice>,
 }
 
 impl Tr4ommon {
@@ -784,10 +822,10 @@ impl Tr4ommon {
 
 #[derive(Default, Debug, Clone, PartialEq, Hash)]
 pub struct Tr4ommoe0 {
-    #[asn(optional(complex(Tplain, tag(UNIVERSAL(16)))))] pub f0: Option<Tplain>,
-    #[asn(optional(complex(Tsmall, tag(UNIVERSAL(2)))))] pub f1: Option<Tsmall>,
-    #[asn(optional(complex(Tplain, tag(UNIVERSAL(16)))))] pub f2: Option<Tplain>,
-    #[asn(optional(complex(Tsmall, tag(UNIVERSAL(2)))))] pub f3: Option<Tsmall>,
+    #[asn(optional(complex(Tchoice, tag(UNIVERSAL(1)))))] pub f0: Option<Tchoice>,
+    #[asn(optional(complex(Tplain, tag(UNIVERSAL(16)))))] pub f1: Option<Tplain>,
+    #[asn(optional(complex(Tsmall, tag(UNIVERSAL(2)))))] pub f2: Option<Tsmall>,
+    #[asn(optional(complex(Tchoice, tag(UNIVERSAL(1)))))] pub f3: Option<Tchoice>,
 }
 
 impl Tr4ommoe0 {
@@ -797,10 +835,10 @@ impl Tr4ommoe0 {
 
 #[derive(Default, Debug, Clone, PartialEq, Hash)]
 pub struct Tr4ommoe1 {
-    #[asn(optional(complex(Tplain, tag(UNIVERSAL(16)))))] pub f0: Option<Tplain>,
-    #[asn(optional(complex(Tsmall, tag(UNIVERSAL(2)))))] pub f1: Option<Tsmall>,
-    #[asn(optional(complex(Tplain, tag(UNIVERSAL(16)))))] pub f2: Option<Tplain>,
-    #[asn(optional(complex(Tsmall, tag(UNIVERSAL(2)))))] pub f3: Option<Tsmall>,
+    #[asn(optional(complex(Tchoice, tag(UNIVERSAL(1)))))] pub f0: Option<Tchoice>,
+    #[asn(optional(complex(Tplain, tag(UNIVERSAL(16)))))] pub f1: Option<Tplain>,
+    #[asn(optional(complex(Tsmall, tag(UNIVERSAL(2)))))] pub f2: Option<Tsmall>,
+    #[asn(optional(complex(Tchoice, tag(UNIVERSAL(1)))))] pub f3: Option<Tchoice>,
 }
 
 impl Tr4ommoe1 {
@@ -810,10 +848,10 @@ impl Tr4ommoe1 {
 
 #[derive(Default, Debug, Clone, PartialEq, Hash)]
 pub struct Tr4ommoe2 {
-    #[asn(optional(complex(Tplain, tag(UNIVERSAL(16)))))] pub f0: Option<Tplain>,
-    #[asn(complex(Tsmall, tag(UNIVERSAL(2))))] pub f1: Tsmall,
-    #[asn(optional(complex(Tplain, tag(UNIVERSAL(16)))))] pub f2: Option<Tplain>,
-    #[asn(optional(complex(Tsmall, tag(UNIVERSAL(2)))))] pub f3: Option<Tsmall>,
+    #[asn(optional(complex(Tchoice, tag(UNIVERSAL(1)))))] pub f0: Option<Tchoice>,
+    #[asn(complex(Tplain, tag(UNIVERSAL(16))))] pub f1: Tplain,
+    #[asn(optional(complex(Tsmall, tag(UNIVERSAL(2)))))] pub f2: Option<Tsmall>,
+    #[asn(optional(complex(Tchoice, tag(UNIVERSAL(1)))))] pub f3: Option<Tchoice>,
 }
 
 impl Tr4ommoe2 {
@@ -823,10 +861,10 @@ impl Tr4ommoe2 {
 
 #[derive(Default, Debug, Clone, PartialEq, Hash)]
 pub struct Tr4ommoe3 {
-    #[asn(optional(complex(Tplain, tag(UNIVERSAL(16)))))] pub f0: Option<Tplain>,
-    #[asn(complex(Tsmall, tag(UNIVERSAL(2))))] pub f1: Tsmall,
-    #[asn(complex(Tplain, tag(UNIVERSAL(16))))] pub f2: Tplain,
-    #[asn(optional(complex(Tsmall, tag(UNIVERSAL(2)))))] pub f3: Option<Tsmall>,
+    #[asn(optional(complex(Tchoice, tag(UNIVERSAL(1)))))] pub f0: Option<Tchoice>,
+    #[asn(complex(Tplain, tag(UNIVERSAL(16))))] pub f1: Tplain,
+    #[asn(complex(Tsmall, tag(UNIVERSAL(2))))] pub f2: Tsmall,
+    #[asn(optional(complex(Tchoice, tag(UNIVERSAL(1)))))] pub f3: Option<Tchoice>,
 }
 
 impl Tr4ommoe3 {
@@ -836,10 +874,10 @@ impl Tr4ommoe3 {
 
 #[derive(Default, Debug, Clone, PartialEq, Hash)]
 pub struct Tr4ommoe4 {
-    #[asn(optional(complex(Tplain, tag(UNIVERSAL(16)))))] pub f0: Option<Tplain>,
-    #[asn(complex(Tsmall, tag(UNIVERSAL(2))))] pub f1: Tsmall,
-    #[asn(complex(Tplain, tag(UNIVERSAL(16))))] pub f2: Tplain,
-    #[asn(optional(complex(Tsmall, tag(UNIVERSAL(2)))))] pub f3: Option<Tsmall>,
+    #[asn(optional(complex(Tchoice, tag(UNIVERSAL(1)))))] pub f0: Option<Tchoice>,
+    #[asn(complex(Tplain, tag(UNIVERSAL(16))))] pub f1: Tplain,
+    #[asn(complex(Tsmall, tag(UNIVERSAL(2))))] pub f2: Tsmall,
+    #[asn(optional(complex(Tchoice, tag(UNIVERSAL(1)))))] pub f3: Option<Tchoice>,
 }
 
 impl Tr4ommoe4 {
@@ -849,10 +887,10 @@ impl Tr4ommoe4 {
 
 #[derive(Default, Debug, Clone, PartialEq, Hash)]
 pub struct Tr4momon {
-    #[asn(complex(Tplain, tag(UNIVERSAL(16))))] pub f0: Tplain,
-    #[asn(optional(complex(Tsmall, tag(UNIVERSAL(2)))))] pub f1: Option<Tsmall>,
-    #[asn(complex(Tplain, tag(UNIVERSAL(16))))] pub f2: Tplain,
-    #[asn(optional(complex(Tsmall, tag(UNIVERSAL(2)))))] pub f3: Option<Tsmall>,
+    #[asn(complex(Tchoice, tag(UNIVERSAL(1))))] pub f0: Tchoice,
+    #[asn(optional(complex(Tplain, tag(UNIVERSAL(16)))))] pub f1: Option<Tplain>,
+    #[asn(complex(Tsmall, tag(UNIVERSAL(2))))] pub f2: Tsmall,
+    #[asn(optional(complex(Tchoice, tag(UNIVERSAL(1)))))] pub f3: Option<Tchoice>,
 }
 
 impl Tr4momon {
@@ -862,10 +900,10 @@ impl Tr4momon {
 
 #[derive(Default, Debug, Clone, PartialEq, Hash)]
 pub struct Tr4momoe0 {
-    #[asn(complex(Tplain, tag(UNIVERSAL(16))))] pub f0: Tplain,
-    #[asn(optional(complex(Tsmall, tag(UNIVERSAL(2)))))] pub f1: Option<Tsmall>,
-    #[asn(optional(complex(Tplain, tag(UNIVERSAL(16)))))] pub f2: Option<Tplain>,
-    #[asn(optional(complex(Tsmall, tag(UNIVERSAL(2)))))] pub f3: Option<Tsmall>,
+    #[asn(complex(Tchoice, tag(UNIVERSAL(1))))] pub f0: Tchoice,
+    #[asn(optional(complex(Tplain, tag(UNIVERSAL(16)))))] pub f1: Option<Tplain>,
+    #[asn(optional(complex(Tsmall, tag(UNIVERSAL(2)))))] pub f2: Option<Tsmall>,
+    #[asn(optional(complex(Tchoice, tag(UNIVERSAL(1)))))] pub f3: Option<Tchoice>,
 }
 
 impl Tr4momoe0 {
@@ -875,10 +913,10 @@ impl Tr4momoe0 {
 
 #[derive(Default, Debug, Clone, PartialEq, Hash)]
 pub struct Tr4momoe1 {
-    #[asn(complex(Tplain, tag(UNIVERSAL(16))))] pub f0: Tplain,
-    #[asn(optional(complex(Tsmall, tag(UNIVERSAL(2)))))] pub f1: Option<Tsmall>,
-    #[asn(optional(complex(Tplain, tag(UNIVERSAL(16)))))] pub f2: Option<Tplain>,
-    #[asn(optional(complex(Tsmall, tag(UNIVERSAL(2)))))] pub f3: Option<Tsmall>,
+    #[asn(complex(Tchoice, tag(UNIVERSAL(1))))] pub f0: Tchoice,
+    #[asn(optional(complex(Tplain, tag(UNIVERSAL(16)))))] pub f1: Option<Tplain>,
+    #[asn(optional(complex(Tsmall, tag(UNIVERSAL(2)))))] pub f2: Option<Tsmall>,
+    #[asn(optional(complex(Tchoice, tag(UNIVERSAL(1)))))] pub f3: Option<Tchoice>,
 }
 
 impl Tr4momoe1 {
@@ -888,10 +926,10 @@ impl Tr4momoe1 {
 
 #[derive(Default, Debug, Clone, PartialEq, Hash)]
 pub struct Tr4momoe2 {
-    #[asn(complex(Tplain, tag(UNIVERSAL(16))))] pub f0: Tplain,
-    #[asn(optional(complex(Tsmall, tag(UNIVERSAL(2)))))] pub f1: Option<Tsmall>,
-    #[asn(optional(complex(Tplain, tag(UNIVERSAL(16)))))] pub f2: Option<Tplain>,
-    #[asn(optional(complex(Tsmall, tag(UNIVERSAL(2)))))] pub f3: Option<Tsmall>,
+    #[asn(complex(Tchoice, tag(UNIVERSAL(1))))] pub f0: Tchoice,
+    #[asn(optional(complex(Tplain, tag(UNIVERSAL(16)))))] pub f1: Option<Tplain>,
+    #[asn(optional(complex(Tsmall, tag(UNIVERSAL(2)))))] pub f2: Option<Tsmall>,
+    #[asn(optional(complex(Tchoice, tag(UNIVERSAL(1)))))] pub f3: Option<Tchoice>,
 }
 
 impl Tr4momoe2 {
@@ -901,10 +939,10 @@ impl Tr4momoe2 {
 
 #[derive(Default, Debug, Clone, PartialEq, Hash)]
 pub struct Tr4momoe3 {
-    #[asn(complex(Tplain, tag(UNIVERSAL(16))))] pub f0: Tplain,
-    #[asn(optional(complex(Tsmall, tag(UNIVERSAL(2)))))] pub f1: Option<Tsmall>,
-    #[asn(complex(Tplain, tag(UNIVERSAL(16))))] pub f2: Tplain,
-    #[asn(optional(complex(Tsmall, tag(UNIVERSAL(2)))))] pub f3: Option<Tsmall>,
+    #[asn(complex(Tchoice, tag(UNIVERSAL(1))))] pub f0: Tchoice,
+    #[asn(optional(complex(Tplain, tag(UNIVERSAL(16)))))] pub f1: Option<Tplain>,
+    #[asn(complex(Tsmall, tag(UNIVERSAL(2))))] pub f2: Tsmall,
+    #[asn(optional(complex(Tchoice, tag(UNIVERSAL(1)))))] pub f3: Option<Tchoice>,
 }
 
 impl Tr4momoe3 {
@@ -914,10 +952,10 @@ impl Tr4momoe3 {
 
 #[derive(Default, Debug, Clone, PartialEq, Hash)]
 pub struct Tr4momoe4 {
-    #[asn(complex(Tplain, tag(UNIVERSAL(16))))] pub f0: Tplain,
-    #[asn(optional(complex(Tsmall, tag(UNIVERSAL(2)))))] pub f1: Option<Tsmall>,
-    #[asn(complex(Tplain, tag(UNIVERSAL(16))))] pub f2: Tplain,
-    #[asn(optional(complex(Tsmall, tag(UNIVERSAL(2)))))] pub f3: Option<Tsmall>,
+    #[asn(complex(Tchoice, tag(UNIVERSAL(1))))] pub f0: Tchoice,
+    #[asn(optional(complex(Tplain, tag(UNIVERSAL(16)))))] pub f1: Option<Tplain>,
+    #[asn(complex(Tsmall, tag(UNIVERSAL(2))))] pub f2: Tsmall,
+    #[asn(optional(complex(Tchoice, tag(UNIVERSAL(1)))))] pub f3: Option<Tchoice>,
 }
 
 impl Tr4momoe4 {
@@ -927,10 +965,10 @@ impl Tr4momoe4 {
 
 #[derive(Default, Debug, Clone, PartialEq, Hash)]
 pub struct Tr4oomon {
-    #[asn(optional(complex(Tplain, tag(UNIVERSAL(16)))))] pub f0: Option<Tplain>,
-    #[asn(optional(complex(Tsmall, tag(UNIVERSAL(2)))))] pub f1: Option<Tsmall>,
-    #[asn(complex(Tplain, tag(UNIVERSAL(16))))] pub f2: Tplain,
-    #[asn(optional(complex(Tsmall, tag(UNIVERSAL(2)))))] pub f3: Option<Tsmall>,
+    #[asn(optional(complex(Tchoice, tag(UNIVERSAL(1)))))] pub f0: Option<Tchoice>,
+    #[asn(optional(complex(Tplain, tag(UNIVERSAL(16)))))] pub f1: Option<Tplain>,
+    #[asn(complex(Tsmall, tag(UNIVERSAL(2))))] pub f2: Tsmall,
+    #[asn(optional(complex(Tchoice, tag(UNIVERSAL(1)))))] pub f3: Option<Tchoice>,
 }
 
 impl Tr4oomon {
@@ -940,10 +978,10 @@ impl Tr4oomon {
 
 #[derive(Default, Debug, Clone, PartialEq, Hash)]
 pub struct Tr4oomoe0 {
-    #[asn(optional(complex(Tplain, tag(UNIVERSAL(16)))))] pub f0: Option<Tplain>,
-    #[asn(optional(complex(Tsmall, tag(UNIVERSAL(2)))))] pub f1: Option<Tsmall>,
-    #[asn(optional(complex(Tplain, tag(UNIVERSAL(16)))))] pub f2: Option<Tplain>,
-    #[asn(optional(complex(Tsmall, tag(UNIVERSAL(2)))))] pub f3: Option<Tsmall>,
+    #[asn(optional(complex(Tchoice, tag(UNIVERSAL(1)))))] pub f0: Option<Tchoice>,
+    #[asn(optional(complex(Tplain, tag(UNIVERSAL(16)))))] pub f1: Option<Tplain>,
+    #[asn(optional(complex(Tsmall, tag(UNIVERSAL(2)))))] pub f2: Option<Tsmall>,
+    #[asn(optional(complex(Tchoice, tag(UNIVERSAL(1)))))] pub f3: Option<Tchoice>,
 }
 
 impl Tr4oomoe0 {
@@ -953,10 +991,10 @@ impl Tr4oomoe0 {
 
 #[derive(Default, Debug, Clone, PartialEq, Hash)]
 pub struct Tr4oomoe1 {
-    #[asn(optional(complex(Tplain, tag(UNIVERSAL(16)))))] pub f0: Option<Tplain>,
-    #[asn(optional(complex(Tsmall, tag(UNIVERSAL(2)))))] pub f1: Option<Tsmall>,
-    #[asn(optional(complex(Tplain, tag(UNIVERSAL(16)))))] pub f2: Option<Tplain>,
-    #[asn(optional(complex(Tsmall, tag(UNIVERSAL(2)))))] pub f3: Option<Tsmall>,
+    #[asn(optional(complex(Tchoice, tag(UNIVERSAL(1)))))] pub f0: Option<Tchoice>,
+    #[asn(optional(complex(Tplain, tag(UNIVERSAL(16)))))] pub f1: Option<Tplain>,
+    #[asn(optional(complex(Tsmall, tag(UNIVERSAL(2)))))] pub f2: Option<Tsmall>,
+    #[asn(optional(complex(Tchoice, tag(UNIVERSAL(1)))))] pub f3: Option<Tchoice>,
 }
 
 impl Tr4oomoe1 {
@@ -966,10 +1004,10 @@ impl Tr4oomoe1 {
 
 #[derive(Default, Debug, Clone, PartialEq, Hash)]
 pub struct Tr4oomoe2 {
-    #[asn(optional(complex(Tplain, tag(UNIVERSAL(16)))))] pub f0: Option<Tplain>,
-    #[asn(optional(complex(Tsmall, tag(UNIVERSAL(2)))))] pub f1: Option<Tsmall>,
-    #[asn(optional(complex(Tplain, tag(UNIVERSAL(16)))))] pub f2: Option<Tplain>,
-    #[asn(optional(complex(Tsmall, tag(UNIVERSAL(2)))))] pub f3: Option<Tsmall>,
+    #[asn(optional(complex(Tchoice, tag(UNIVERSAL(1)))))] pub f0: Option<Tchoice>,
+    #[asn(optional(complex(Tplain, tag(UNIVERSAL(16)))))] pub f1: Option<Tplain>,
+    #[asn(optional(complex(Tsmall, tag(UNIVERSAL(2)))))] pub f2: Option<Tsmall>,
+    #[asn(optional(complex(Tchoice, tag(UNIVERSAL(1)))))] pub f3: Option<Tchoice>,
 }
 
 impl Tr4oomoe2 {
@@ -979,10 +1017,10 @@ impl Tr4oomoe2 {
 
 #[derive(Default, Debug, Clone, PartialEq, Hash)]
 pub struct Tr4oomoe3 {
-    #[asn(optional(complex(Tplain, tag(UNIVERSAL(16)))))] pub f0: Option<Tplain>,
-    #[asn(optional(complex(Tsmall, tag(UNIVERSAL(2)))))] pub f1: Option<Tsmall>,
-    #[asn(complex(Tplain, tag(UNIVERSAL(16))))] pub f2: Tplain,
-    #[asn(optional(complex(Tsmall, tag(UNIVERSAL(2)))))] pub f3: Option<Tsmall>,
+    #[asn(optional(complex(Tchoice, tag(UNIVERSAL(1)))))] pub f0: Option<Tchoice>,
+    #[asn(optional(complex(Tplain, tag(UNIVERSAL(16)))))] pub f1: Option<Tplain>,
+    #[asn(complex(Tsmall, tag(UNIVERSAL(2))))] pub f2: Tsmall,
+    #[asn(optional(complex(Tchoice, tag(UNIVERSAL(1)))))] pub f3: Option<Tchoice>,
 }
 
 impl Tr4oomoe3 {
@@ -992,10 +1030,10 @@ impl Tr4oomoe3 {
 
 #[derive(Default, Debug, Clone, PartialEq, Hash)]
 pub struct Tr4oomoe4 {
-    #[asn(optional(complex(Tplain, tag(UNIVERSAL(16)))))] pub f0: Option<Tplain>,
-    #[asn(optional(complex(Tsmall, tag(UNIVERSAL(2)))))] pub f1: Option<Tsmall>,
-    #[asn(complex(Tplain, tag(UNIVERSAL(16))))] pub f2: Tplain,
-    #[asn(optional(complex(Tsmall, tag(UNIVERSAL(2)))))] pub f3: Option<Tsmall>,
+    #[asn(optional(complex(Tchoice, tag(UNIVERSAL(1)))))] pub f0: Option<Tchoice>,
+    #[asn(optional(complex(Tplain, tag(UNIVERSAL(16)))))] pub f1: Option<Tplain>,
+    #[asn(complex(Tsmall, tag(UNIVERSAL(2))))] pub f2: Tsmall,
+    #[asn(optional(complex(Tchoice, tag(UNIVERSAL(1)))))] pub f3: Option<Tchoice>,
 }
 
 impl Tr4oomoe4 {
@@ -1005,10 +1043,10 @@ impl Tr4oomoe4 {
 
 #[derive(Default, Debug, Clone, PartialEq, Hash)]
 pub struct Tr4mmoon {
-    #[asn(complex(Tplain, tag(UNIVERSAL(16))))] pub f0: Tplain,
-    #[asn(complex(Tsmall, tag(UNIVERSAL(2))))] pub f1: Tsmall,
-    #[asn(optional(complex(Tplain, tag(UNIVERSAL(16)))))] pub f2: Option<Tplain>,
-    #[asn(optional(complex(Tsmall, tag(UNIVERSAL(2)))))] pub f3: Option<Tsmall>,
+    #[asn(complex(Tchoice, tag(UNIVERSAL(1))))] pub f0: Tchoice,
+    #[asn(complex(Tplain, tag(UNIVERSAL(16))))] pub f1: Tplain,
+    #[asn(optional(complex(Tsmall, tag(UNIVERSAL(2)))))] pub f2: Option<Tsmall>,
+    #[asn(optional(complex(Tchoice, tag(UNIVERSAL(1)))))] pub f3: Option<Tchoice>,
 }
 
 impl Tr4mmoon {
@@ -1018,10 +1056,10 @@ impl Tr4mmoon {
 
 #[derive(Default, Debug, Clone, PartialEq, Hash)]
 pub struct Tr4mmooe0 {
-    #[asn(complex(Tplain, tag(UNIVERSAL(16))))] pub f0: Tplain,
-    #[asn(optional(complex(Tsmall, tag(UNIVERSAL(2)))))] pub f1: Option<Tsmall>,
-    #[asn(optional(complex(Tplain, tag(UNIVERSAL(16)))))] pub f2: Option<Tplain>,
-    #[asn(optional(complex(Tsmall, tag(UNIVERSAL(2)))))] pub f3: Option<Tsmall>,
+    #[asn(complex(Tchoice, tag(UNIVERSAL(1))))] pub f0: Tchoice,
+    #[asn(optional(complex(Tplain, tag(UNIVERSAL(16)))))] pub f1: Option<Tplain>,
+    #[asn(optional(complex(Tsmall, tag(UNIVERSAL(2)))))] pub f2: Option<Tsmall>,
+    #[asn(optional(complex(Tchoice, tag(UNIVERSAL(1)))))] pub f3: Option<Tchoice>,
 }
 
 impl Tr4mmooe0 {
@@ -1031,10 +1069,10 @@ impl Tr4mmooe0 {
 
 #[derive(Default, Debug, Clone, PartialEq, Hash)]
 pub struct Tr4mmooe1 {
-    #[asn(complex(Tplain, tag(UNIVERSAL(16))))] pub f0: Tplain,
-    #[asn(optional(complex(Tsmall, tag(UNIVERSAL(2)))))] pub f1: Option<Tsmall>,
-    #[asn(optional(complex(Tplain, tag(UNIVERSAL(16)))))] pub f2: Option<Tplain>,
-    #[asn(optional(complex(Tsmall, tag(UNIVERSAL(2)))))] pub f3: Option<Tsmall>,
+    #[asn(complex(Tchoice, tag(UNIVERSAL(1))))] pub f0: Tchoice,
+    #[asn(optional(complex(Tplain, tag(UNIVERSAL(16)))))] pub f1: Option<Tplain>,
+    #[asn(optional(complex(Tsmall, tag(UNIVERSAL(2)))))] pub f2: Option<Tsmall>,
+    #[asn(optional(complex(Tchoice, tag(UNIVERSAL(1)))))] pub f3: Option<Tchoice>,
 }
 
 impl Tr4mmooe1 {
@@ -1044,10 +1082,10 @@ impl Tr4mmooe1 {
 
 #[derive(Default, Debug, Clone, PartialEq, Hash)]
 pub struct Tr4mmooe2 {
-    #[asn(complex(Tplain, tag(UNIVERSAL(16))))] pub f0: Tplain,
-    #[asn(complex(Tsmall, tag(UNIVERSAL(2))))] pub f1: Tsmall,
-    #[asn(optional(complex(Tplain, tag(UNIVERSAL(16)))))] pub f2: Option<Tplain>,
-    #[asn(optional(complex(Tsmall, tag(UNIVERSAL(2)))))] pub f3: Option<Tsmall>,
+    #[asn(complex(Tchoice, tag(UNIVERSAL(1))))] pub f0: Tchoice,
+    #[asn(complex(Tplain, tag(UNIVERSAL(16))))] pub f1: Tplain,
+    #[asn(optional(complex(Tsmall, tag(UNIVERSAL(2)))))] pub f2: Option<Tsmall>,
+    #[asn(optional(complex(Tchoice, tag(UNIVERSAL(1)))))] pub f3: Option<Tchoice>,
 }
 
 impl Tr4mmooe2 {
@@ -1057,10 +1095,10 @@ impl Tr4mmooe2 {
 
 #[derive(Default, Debug, Clone, PartialEq, Hash)]
 pub struct Tr4mmooe3 {
-    #[asn(complex(Tplain, tag(UNIVERSAL(16))))] pub f0: Tplain,
-    #[asn(complex(Tsmall, tag(UNIVERSAL(2))))] pub f1: Tsmall,
-    #[asn(optional(complex(Tplain, tag(UNIVERSAL(16)))))] pub f2: Option<Tplain>,
-    #[asn(optional(complex(Tsmall, tag(UNIVERSAL(2)))))] pub f3: Option<Tsmall>,
+    #[asn(complex(Tchoice, tag(UNIVERSAL(1))))] pub f0: Tchoice,
+    #[asn(complex(Tplain, tag(UNIVERSAL(16))))] pub f1: Tplain,
+    #[asn(optional(complex(Tsmall, tag(UNIVERSAL(2)))))] pub f2: Option<Tsmall>,
+    #[asn(optional(complex(Tchoice, tag(UNIVERSAL(1)))))] pub f3: Option<Tchoice>,
 }
 
 impl Tr4mmooe3 {
@@ -1070,10 +1108,10 @@ impl Tr4mmooe3 {
 
 #[derive(Default, Debug, Clone, PartialEq, Hash)]
 pub struct Tr4mmooe4 {
-    #[asn(complex(Tplain, tag(UNIVERSAL(16))))] pub f0: Tplain,
-    #[asn(complex(Tsmall, tag(UNIVERSAL(2))))] pub f1: Tsmall,
-    #[asn(optional(complex(Tplain, tag(UNIVERSAL(16)))))] pub f2: Option<Tplain>,
-    #[asn(optional(complex(Tsmall, tag(UNIVERSAL(2)))))] pub f3: Option<Tsmall>,
+    #[asn(complex(Tchoice, tag(UNIVERSAL(1))))] pub f0: Tchoice,
+    #[asn(complex(Tplain, tag(UNIVERSAL(16))))] pub f1: Tplain,
+    #[asn(optional(complex(Tsmall, tag(UNIVERSAL(2)))))] pub f2: Option<Tsmall>,
+    #[asn(optional(complex(Tchoice, tag(UNIVERSAL(1)))))] pub f3: Option<Tchoice>,
 }
 
 impl Tr4mmooe4 {
@@ -1083,10 +1121,10 @@ impl Tr4mmooe4 {
 
 #[derive(Default, Debug, Clone, PartialEq, Hash)]
 pub struct Tr4omoon {
-    #[asn(optional(complex(Tplain, tag(UNIVERSAL(16)))))] pub f0: Option<Tplain>,
-    #[asn(complex(Tsmall, tag(UNIVERSAL(2))))] pub f1: Tsmall,
-    #[asn(optional(complex(Tplain, tag(UNIVERSAL(16)))))] pub f2: Option<Tplain>,
-    #[asn(optional(complex(Tsmall, tag(UNIVERSAL(2)))))] pub f3: Option<Tsmall>,
+    #[asn(optional(complex(Tchoice, tag(UNIVERSAL(1)))))] pub f0: Option<Tchoice>,
+    #[asn(complex(Tplain, tag(UNIVERSAL(16))))] pub f1: Tplain,
+    #[asn(optional(complex(Tsmall, tag(UNIVERSAL(2)))))] pub f2: Option<Tsmall>,
+    #[asn(optional(complex(Tchoice, tag(UNIVERSAL(1)))))] pub f3: Option<Tchoice>,
 }
 
 impl Tr4omoon {
@@ -1096,10 +1134,10 @@ impl Tr4omoon {
 
 #[derive(Default, Debug, Clone, PartialEq, Hash)]
 pub struct Tr4omooe0 {
-    #[asn(optional(complex(Tplain, tag(UNIVERSAL(16)))))] pub f0: Option<Tplain>,
-    #[asn(optional(complex(Tsmall, tag(UNIVERSAL(2)))))] pub f1: Option<Tsmall>,
-    #[asn(optional(complex(Tplain, tag(UNIVERSAL(16)))))] pub f2: Option<Tplain>,
-    #[asn(optional(complex(Tsmall, tag(UNIVERSAL(2)))))] pub f3: Option<Tsmall>,
+    #[asn(optional(complex(Tchoice, tag(UNIVERSAL(1)))))] pub f0: Option<Tchoice>,
+    #[asn(optional(complex(Tplain, tag(UNIVERSAL(16)))))] pub f1: Option<Tplain>,
+    #[asn(optional(complex(Tsmall, tag(UNIVERSAL(2)))))] pub f2: Option<Tsmall>,
+    #[asn(optional(complex(Tchoice, tag(UNIVERSAL(1)))))] pub f3: Option<Tchoice>,
 }
 
 impl Tr4omooe0 {
@@ -1109,10 +1147,10 @@ impl Tr4omooe0 {
 
 #[derive(Default, Debug, Clone, PartialEq, Hash)]
 pub struct Tr4omooe1 {
-    #[asn(optional(complex(Tplain, tag(UNIVERSAL(16)))))] pub f0: Option<Tplain>,
-    #[asn(optional(complex(Tsmall, tag(UNIVERSAL(2)))))] pub f1: Option<Tsmall>,
-    #[asn(optional(complex(Tplain, tag(UNIVERSAL(16)))))] pub f2: Option<Tplain>,
-    #[asn(optional(complex(Tsmall, tag(UNIVERSAL(2)))))] pub f3: Option<Tsmall>,
+    #[asn(optional(complex(Tchoice, tag(UNIVERSAL(1)))))] pub f0: Option<Tchoice>,
+    #[asn(optional(complex(Tplain, tag(UNIVERSAL(16)))))] pub f1: Option<Tplain>,
+    #[asn(optional(complex(Tsmall, tag(UNIVERSAL(2)))))] pub f2: Option<Tsmall>,
+    #[asn(optional(complex(Tchoice, tag(UNIVERSAL(1)))))] pub f3: Option<Tchoice>,
 }
 
 impl Tr4omooe1 {
@@ -1122,10 +1160,10 @@ impl Tr4omooe1 {
 
 #[derive(Default, Debug, Clone, PartialEq, Hash)]
 pub struct Tr4omooe2 {
-    #[asn(optional(complex(Tplain, tag(UNIVERSAL(16)))))] pub f0: Option<Tplain>,
-    #[asn(complex(Tsmall, tag(UNIVERSAL(2))))] pub f1: Tsmall,
-    #[asn(optional(complex(Tplain, tag(UNIVERSAL(16)))))] pub f2: Option<Tplain>,
-    #[asn(optional(complex(Tsmall, tag(UNIVERSAL(2)))))] pub f3: Option<Tsmall>,
+    #[asn(optional(complex(Tchoice, tag(UNIVERSAL(1)))))] pub f0: Option<Tchoice>,
+    #[asn(complex(Tplain, tag(UNIVERSAL(16))))] pub f1: Tplain,
+    #[asn(optional(complex(Tsmall, tag(UNIVERSAL(2)))))] pub f2: Option<Tsmall>,
+    #[asn(optional(complex(Tchoice, tag(UNIVERSAL(1)))))] pub f3: Option<Tchoice>,
 }
 
 impl Tr4omooe2 {
@@ -1135,10 +1173,10 @@ impl Tr4omooe2 {
 
 #[derive(Default, Debug, Clone, PartialEq, Hash)]
 pub struct Tr4omooe3 {
-    #[asn(optional(complex(Tplain, tag(UNIVERSAL(16)))))] pub f0: Option<Tplain>,
-    #[asn(complex(Tsmall, tag(UNIVERSAL(2))))] pub f1: Tsmall,
-    #[asn(optional(complex(Tplain, tag(UNIVERSAL(16)))))] pub f2: Option<Tplain>,
-    #[asn(optional(complex(Tsmall, tag(UNIVERSAL(2)))))] pub f3: Option<Tsmall>,
+    #[asn(optional(complex(Tchoice, tag(UNIVERSAL(1)))))] pub f0: Option<Tchoice>,
+    #[asn(complex(Tplain, tag(UNIVERSAL(16))))] pub f1: Tplain,
+    #[asn(optional(complex(Tsmall, tag(UNIVERSAL(2)))))] pub f2: Option<Tsmall>,
+    #[asn(optional(complex(Tchoice, tag(UNIVERSAL(1)))))] pub f3: Option<Tchoice>,
 }
 
 impl Tr4omooe3 {
@@ -1148,10 +1186,10 @@ impl Tr4omooe3 {
 
 #[derive(Default, Debug, Clone, PartialEq, Hash)]
 pub struct Tr4omooe4 {
-    #[asn(optional(complex(Tplain, tag(UNIVERSAL(16)))))] pub f0: Option<Tplain>,
-    #[asn(complex(Tsmall, tag(UNIVERSAL(2))))] pub f1: Tsmall,
-    #[asn(optional(complex(Tplain, tag(UNIVERSAL(16)))))] pub f2: Option<Tplain>,
-    #[asn(optional(complex(Tsmall, tag(UNIVERSAL(2)))))] pub f3: Option<Tsmall>,
+    #[asn(optional(complex(Tchoice, tag(UNIVERSAL(1)))))] pub f0: Option<Tchoice>,
+    #[asn(complex(Tplain, tag(UNIVERSAL(16))))] pub f1: Tplain,
+    #[asn(optional(complex(Tsmall, tag(UNIVERSAL(2)))))] pub f2: Option<Tsmall>,
+    #[asn(optional(complex(Tchoice, tag(UNIVERSAL(1)))))] pub f3: Option<Tchoice>,
 }
 
 impl Tr4omooe4 {
@@ -1161,10 +1199,10 @@ impl Tr4omooe4 {
 
 #[derive(Default, Debug, Clone, PartialEq, Hash)]
 pub struct Tr4mooon {
-    #[asn(complex(Tplain, tag(UNIVERSAL(16))))] pub f0: Tplain,
-    #[asn(optional(complex(Tsmall, tag(UNIVERSAL(2)))))] pub f1: Option<Tsmall>,
-    #[asn(optional(complex(Tplain, tag(UNIVERSAL(16)))))] pub f2: Option<Tplain>,
-    #[asn(optional(complex(Tsmall, tag(UNIVERSAL(2)))))] pub f3: Option<Tsmall>,
+    #[asn(complex(Tchoice, tag(UNIVERSAL(1))))] pub f0: Tchoice,
+    #[asn(optional(complex(Tplain, tag(UNIVERSAL(16)))))] pub f1: Option<Tplain>,
+    #[asn(optional(complex(Tsmall, tag(UNIVERSAL(2)))))] pub f2: Option<Tsmall>,
+    #[asn(optional(complex(Tchoice, tag(UNIVERSAL(1)))))] pub f3: Option<Tchoice>,
 }
 
 impl Tr4mooon {
@@ -1174,10 +1212,10 @@ impl Tr4mooon {
 
 #[derive(Default, Debug, Clone, PartialEq, Hash)]
 pub struct Tr4moooe0 {
-    #[asn(complex(Tplain, tag(UNIVERSAL(16))))] pub f0: Tplain,
-    #[asn(optional(complex(Tsmall, tag(UNIVERSAL(2)))))] pub f1: Option<Tsmall>,
-    #[asn(optional(complex(Tplain, tag(UNIVERSAL(16)))))] pub f2: Option<Tplain>,
-    #[asn(optional(complex(Tsmall, tag(UNIVERSAL(2)))))] pub f3: Option<Tsmall>,
+    #[asn(complex(Tchoice, tag(UNIVERSAL(1))))] pub f0: Tchoice,
+    #[asn(optional(complex(Tplain, tag(UNIVERSAL(16)))))] pub f1: Option<Tplain>,
+    #[asn(optional(complex(Tsmall, tag(UNIVERSAL(2)))))] pub f2: Option<Tsmall>,
+    #[asn(optional(complex(Tchoice, tag(UNIVERSAL(1)))))] pub f3: Option<Tchoice>,
 }
 
 impl Tr4moooe0 {
@@ -1187,10 +1225,10 @@ impl Tr4moooe0 {
 
 #[derive(Default, Debug, Clone, PartialEq, Hash)]
 pub struct Tr4moooe1 {
-    #[asn(complex(Tplain, tag(UNIVERSAL(16))))] pub f0: Tplain,
-    #[asn(optional(complex(Tsmall, tag(UNIVERSAL(2)))))] pub f1: Option<Tsmall>,
-    #[asn(optional(complex(Tplain, tag(UNIVERSAL(16)))))] pub f2: Option<Tplain>,
-    #[asn(optional(complex(Tsmall, tag(UNIVERSAL(2)))))] pub f3: Option<Tsmall>,
+    #[asn(complex(Tchoice, tag(UNIVERSAL(1))))] pub f0: Tchoice,
+    #[asn(optional(complex(Tplain, tag(UNIVERSAL(16)))))] pub f1: Option<Tplain>,
+    #[asn(optional(complex(Tsmall, tag(UNIVERSAL(2)))))] pub f2: Option<Tsmall>,
+    #[asn(optional(complex(Tchoice, tag(UNIVERSAL(1)))))] pub f3: Option<Tchoice>,
 }
 
 impl Tr4moooe1 {
@@ -1200,10 +1238,10 @@ impl Tr4moooe1 {
 
 #[derive(Default, Debug, Clone, PartialEq, Hash)]
 pub struct Tr4moooe2 {
-    #[asn(complex(Tplain, tag(UNIVERSAL(16))))] pub f0: Tplain,
-    #[asn(optional(complex(Tsmall, tag(UNIVERSAL(2)))))] pub f1: Option<Tsmall>,
-    #[asn(optional(complex(Tplain, tag(UNIVERSAL(16)))))] pub f2: Option<Tplain>,
-    #[asn(optional(complex(Tsmall, tag(UNIVERSAL(2)))))] pub f3: Option<Tsmall>,
+    #[asn(complex(Tchoice, tag(UNIVERSAL(1))))] pub f0: Tchoice,
+    #[asn(optional(complex(Tplain, tag(UNIVERSAL(16)))))] pub f1: Option<Tplain>,
+    #[asn(optional(complex(Tsmall, tag(UNIVERSAL(2)))))] pub f2: Option<Tsmall>,
+    #[asn(optional(complex(Tchoice, tag(UNIVERSAL(1)))))] pub f3: Option<Tchoice>,
 }
 
 impl Tr4moooe2 {
@@ -1213,10 +1251,10 @@ impl Tr4moooe2 {
 
 #[derive(Default, Debug, Clone, PartialEq, Hash)]
 pub struct Tr4moooe3 {
-    #[asn(complex(Tplain, tag(UNIVERSAL(16))))] pub f0: Tplain,
-    #[asn(optional(complex(Tsmall, tag(UNIVERSAL(2)))))] pub f1: Option<Tsmall>,
-    #[asn(optional(complex(Tplain, tag(UNIVERSAL(16)))))] pub f2: Option<Tplain>,
-    #[asn(optional(complex(Tsmall, tag(UNIVERSAL(2)))))] pub f3: Option<Tsmall>,
+    #[asn(complex(Tchoice, tag(UNIVERSAL(1))))] pub f0: Tchoice,
+    #[asn(optional(complex(Tplain, tag(UNIVERSAL(16)))))] pub f1: Option<Tplain>,
+    #[asn(optional(complex(Tsmall, tag(UNIVERSAL(2)))))] pub f2: Option<Tsmall>,
+    #[asn(optional(complex(Tchoice, tag(UNIVERSAL(1)))))] pub f3: Option<Tchoice>,
 }
 
 impl Tr4moooe3 {
@@ -1226,10 +1264,10 @@ impl Tr4moooe3 {
 
 #[derive(Default, Debug, Clone, PartialEq, Hash)]
 pub struct Tr4moooe4 {
-    #[asn(complex(Tplain, tag(UNIVERSAL(16))))] pub f0: Tplain,
-    #[asn(optional(complex(Tsmall, tag(UNIVERSAL(2)))))] pub f1: Option<Tsmall>,
-    #[asn(optional(complex(Tplain, tag(UNIVERSAL(16)))))] pub f2: Option<Tplain>,
-    #[asn(optional(complex(Tsmall, tag(UNIVERSAL(2)))))] pub f3: Option<Tsmall>,
+    #[asn(complex(Tchoice, tag(UNIVERSAL(1))))] pub f0: Tchoice,
+    #[asn(optional(complex(Tplain, tag(UNIVERSAL(16)))))] pub f1: Option<Tplain>,
+    #[asn(optional(complex(Tsmall, tag(UNIVERSAL(2)))))] pub f2: Option<Tsmall>,
+    #[asn(optional(complex(Tchoice, tag(UNIVERSAL(1)))))] pub f3: Option<Tchoice>,
 }
 
 impl Tr4moooe4 {
@@ -1239,10 +1277,10 @@ impl Tr4moooe4 {
 
 #[derive(Default, Debug, Clone, PartialEq, Hash)]
 pub struct Tr4oooon {
-    #[asn(optional(complex(Tplain, tag(UNIVERSAL(16)))))] pub f0: Option<Tplain>,
-    #[asn(optional(complex(Tsmall, tag(UNIVERSAL(2)))))] pub f1: Option<Tsmall>,
-    #[asn(optional(complex(Tplain, tag(UNIVERSAL(16)))))] pub f2: Option<Tplain>,
-    #[asn(optional(complex(Tsmall, tag(UNIVERSAL(2)))))] pub f3: Option<Tsmall>,
+    #[asn(optional(complex(Tchoice, tag(UNIVERSAL(1)))))] pub f0: Option<Tchoice>,
+    #[asn(optional(complex(Tplain, tag(UNIVERSAL(16)))))] pub f1: Option<Tplain>,
+    #[asn(optional(complex(Tsmall, tag(UNIVERSAL(2)))))] pub f2: Option<Tsmall>,
+    #[asn(optional(complex(Tchoice, tag(UNIVERSAL(1)))))] pub f3: Option<Tchoice>,
 }
 
 impl Tr4oooon {
@@ -1252,10 +1290,10 @@ impl Tr4oooon {
 
 #[derive(Default, Debug, Clone, PartialEq, Hash)]
 pub struct Tr4ooooe0 {
-    #[asn(optional(complex(Tplain, tag(UNIVERSAL(16)))))] pub f0: Option<Tplain>,
-    #[asn(optional(complex(Tsmall, tag(UNIVERSAL(2)))))] pub f1: Option<Tsmall>,
-    #[asn(optional(complex(Tplain, tag(UNIVERSAL(16)))))] pub f2: Option<Tplain>,
-    #[asn(optional(complex(Tsmall, tag(UNIVERSAL(2)))))] pub f3: Option<Tsmall>,
+    #[asn(optional(complex(Tchoice, tag(UNIVERSAL(1)))))] pub f0: Option<Tchoice>,
+    #[asn(optional(complex(Tplain, tag(UNIVERSAL(16)))))] pub f1: Option<Tplain>,
+    #[asn(optional(complex(Tsmall, tag(UNIVERSAL(2)))))] pub f2: Option<Tsmall>,
+    #[asn(optional(complex(Tchoice, tag(UNIVERSAL(1)))))] pub f3: Option<Tchoice>,
 }
 
 impl Tr4ooooe0 {
@@ -1265,10 +1303,10 @@ impl Tr4ooooe0 {
 
 #[derive(Default, Debug, Clone, PartialEq, Hash)]
 pub struct Tr4ooooe1 {
-    #[asn(optional(complex(Tplain, tag(UNIVERSAL(16)))))] pub f0: Option<Tplain>,
-    #[asn(optional(complex(Tsmall, tag(UNIVERSAL(2)))))] pub f1: Option<Tsmall>,
-    #[asn(optional(complex(Tplain, tag(UNIVERSAL(16)))))] pub f2: Option<Tplain>,
-    #[asn(optional(complex(Tsmall, tag(UNIVERSAL(2)))))] pub f3: Option<Tsmall>,
+    #[asn(optional(complex(Tchoice, tag(UNIVERSAL(1)))))] pub f0: Option<Tchoice>,
+    #[asn(optional(complex(Tplain, tag(UNIVERSAL(16)))))] pub f1: Option<Tplain>,
+    #[asn(optional(complex(Tsmall, tag(UNIVERSAL(2)))))] pub f2: Option<Tsmall>,
+    #[asn(optional(complex(Tchoice, tag(UNIVERSAL(1)))))] pub f3: Option<Tchoice>,
 }
 
 impl Tr4ooooe1 {
@@ -1278,10 +1316,10 @@ impl Tr4ooooe1 {
 
 #[derive(Default, Debug, Clone, PartialEq, Hash)]
 pub struct Tr4ooooe2 {
-    #[asn(optional(complex(Tplain, tag(UNIVERSAL(16)))))] pub f0: Option<Tplain>,
-    #[asn(optional(complex(Tsmall, tag(UNIVERSAL(2)))))] pub f1: Option<Tsmall>,
-    #[asn(optional(complex(Tplain, tag(UNIVERSAL(16)))))] pub f2: Option<Tplain>,
-    #[asn(optional(complex(Tsmall, tag(UNIVERSAL(2)))))] pub f3: Option<Tsmall>,
+    #[asn(optional(complex(Tchoice, tag(UNIVERSAL(1)))))] pub f0: Option<Tchoice>,
+    #[asn(optional(complex(Tplain, tag(UNIVERSAL(16)))))] pub f1: Option<Tplain>,
+    #[asn(optional(complex(Tsmall, tag(UNIVERSAL(2)))))] pub f2: Option<Tsmall>,
+    #[asn(optional(complex(Tchoice, tag(UNIVERSAL(1)))))] pub f3: Option<Tchoice>,
 }
 
 impl Tr4ooooe2 {
@@ -1291,10 +1329,10 @@ impl Tr4ooooe2 {
 
 #[derive(Default, Debug, Clone, PartialEq, Hash)]
 pub struct Tr4ooooe3 {
-    #[asn(optional(complex(Tplain, tag(UNIVERSAL(16)))))] pub f0: Option<Tplain>,
-    #[asn(optional(complex(Tsmall, tag(UNIVERSAL(2)))))] pub f1: Option<Tsmall>,
-    #[asn(optional(complex(Tplain, tag(UNIVERSAL(16)))))] pub f2: Option<Tplain>,
-    #[asn(optional(complex(Tsmall, tag(UNIVERSAL(2)))))] pub f3: Option<Tsmall>,
+    #[asn(optional(complex(Tchoice, tag(UNIVERSAL(1)))))] pub f0: Option<Tchoice>,
+    #[asn(optional(complex(Tplain, tag(UNIVERSAL(16)))))] pub f1: Option<Tplain>,
+    #[asn(optional(complex(Tsmall, tag(UNIVERSAL(2)))))] pub f2: Option<Tsmall>,
+    #[asn(optional(complex(Tchoice, tag(UNIVERSAL(1)))))] pub f3: Option<Tchoice>,
 }
 
 impl Tr4ooooe3 {
@@ -1304,10 +1342,10 @@ impl Tr4ooooe3 {
 
 #[derive(Default, Debug, Clone, PartialEq, Hash)]
 pub struct Tr4ooooe4 {
-    #[asn(optional(complex(Tplain, tag(UNIVERSAL(16)))))] pub f0: Option<Tplain>,
-    #[asn(optional(complex(Tsmall, tag(UNIVERSAL(2)))))] pub f1: Option<Tsmall>,
-    #[asn(optional(complex(Tplain, tag(UNIVERSAL(16)))))] pub f2: Option<Tplain>,
-    #[asn(optional(complex(Tsmall, tag(UNIVERSAL(2)))))] pub f3: Option<Tsmall>,
+    #[asn(optional(complex(Tchoice, tag(UNIVERSAL(1)))))] pub f0: Option<Tchoice>,
+    #[asn(optional(complex(Tplain, tag(UNIVERSAL(16)))))] pub f1: Option<Tplain>,
+    #[asn(optional(complex(Tsmall, tag(UNIVERSAL(2)))))] pub f2: Option<Tsmall>,
+    #[asn(optional(complex(Tchoice, tag(UNIVERSAL(1)))))] pub f3: Option<Tchoice>,
 }
 
 impl Tr4ooooe4 {
@@ -1334,6 +1372,24 @@ impl ToValue for Tplain {
 }
 impl FromValue for Tsmall { fn from_value(v: &Value) -> Self { Tsmall(FromValue::from_value(v)) } }
 impl ToValue for Tsmall { fn to_value(&self) -> Value { self.0.to_value() } }
+impl FromValue for Tchoice {
+    fn from_value(v: &Value) -> Self {
+        let (i, inner) = match v { Value::Choice(i, inner) => (*i, &**inner), other => panic!("Tchoice: expected Choice, got {other:?}") };
+        match i {
+            0 => Tchoice::I(FromValue::from_value(inner)),
+            1 => Tchoice::B(FromValue::from_value(inner)),
+            _ => panic!("Tchoice: alternative index {i} out of range"),
+        }
+    }
+}
+impl ToValue for Tchoice {
+    fn to_value(&self) -> Value {
+        match self {
+            Tchoice::I(x) => Value::Choice(0, Box::new(x.to_value())),
+            Tchoice::B(x) => Value::Choice(1, Box::new(x.to_value())),
+        }
+    }
+}
 impl FromValue for Tr4mmmmn {
     fn from_value(v: &Value) -> Self {
         let s = match v { Value::Seq(s) => s, other => panic!("Tr4mmmmn: expected Seq, got {other:?}") };
